@@ -1,33 +1,46 @@
 """C07 — U1000 is deletion-safe and catches every zero-reference object.
 
-Lean: Verif/C07/{Graph,Lemmas,Theorems}.lean — the use/own graph, `color`,
-`colorAndQuieten`, `Results` transliterated from unused.go; theorems used_closed,
-deletion_safe_graph, zero_ref_reported, quiet_only_under_unused_owner (for all graphs).
+Lean (lean/Verif/C07):
+  Graph/Lemmas/Theorems   the use/own graph, `color`, `colorAndQuieten`, `Results` (shared with C17)
+  Walk/WalkTheorems       model of the RULES of the AST walk (entry/decl/namedType/embeddedField/
+                          seeScope/processMethodSet/implements) for a declaration language, as a
+                          function abstract package -> builder calls (C17 `Event`), with
+                          walk_refs_safe, walk_multi_init_safe, walk_impl_safe (deletion safety over
+                          the abstract language) and walk_zero_ref_reported (completeness)
+  Emit/EmitTheorems       model of lintcmd/lint.go's U1000 merge over package variants and of the
+                          emission loop, keyed by (package, file, line, NAME): emitted_iff,
+                          emit_deletion_safe, emit_complete
 
-Tie V (translation validation, per package): harness/cmd/c07run runs the REAL
-unused.Analyzer in-process, dumps the real graph through unused.Debug and
-  * the Lean model's Results on the dumped graph must equal the colours/Result of the real
-    code (correspondence),
-  * the hypotheses of the theorems are evaluated by the Lean driver on the dump: graph
-    well-formedness, `refsCovered` for the reference relation computed independently from
-    go/types (certificate of deletion_safe_graph), zero-reference nodes.
-Oracle (the statement's own bracket, judged by go/types, not by unused's rules):
-  (1) remove every reported object (and what is declared inside it), drop imports that
-      became unused, types.Check must succeed;
-  (2) every unexported package-level func / defined type / var / stand-alone const without
-      any referring identifier must be in Result.Unused.
-Programs: seeded declaration-graph generator (type-correct by construction, verified with
-go/types), /repo/unused/testdata packages, packages of the repository (thorough: more).
+Ties, all checked on every run:
+  X  colouring: Lean Results on the dumped graph = colours/Result of the real code (every program);
+  X  walk: for every package of the fragment generator the edges, owners and verdicts of the graph
+     built by the Lean walk model equal the REAL analyzer's dump, the program's references
+     (go/types) are references of the abstract package, go/types' zero-reference objects are the
+     model's candidates;
+  X  emission: Lean `emitted` on the per-variant Results (in-process runs of unused.Analyzer on the
+     plain and the in-package-test variant) = the U1000 lines of the REAL staticcheck binary,
+     without and with tests;
+  V  certificate `refsCovered` of deletion_safe_graph on every dump — ENFORCED: an uncovered
+     reference is a correspondence failure.
+Oracles (the statement's own bracket, judged by go/types, never by unused's rules), applied to
+what unused.Analyzer returns AND to what the staticcheck binary prints:
+  (1) remove every reported object (and what is declared inside it), drop imports that became
+      unused, types.Check must succeed;
+  (2) every unexported package-level func / defined type / var / stand-alone const without any
+      referring identifier must be reported.
+Programs: corpus/C07 (minimised regressions, first), seeded declaration-graph generator PkgGen,
+fragment generator FragGen, /repo/unused/testdata packages, packages of the repository.
 """
 import json
 import os
 import re
 import shutil
+import tempfile
 from concurrent.futures import ThreadPoolExecutor
 
 import vlib
 
-MODULES = ["Verif.C07.Theorems"]
+MODULES = ["Verif.C07.Theorems", "Verif.C07.WalkTheorems", "Verif.C07.EmitTheorems"]
 THEOREMS = [
     "Verif.C07.Graph.used_iff_reachable",
     "Verif.C07.Graph.used_closed",
@@ -40,9 +53,22 @@ THEOREMS = [
     "Verif.C07.Graph.verdict_used_iff",
     "Verif.C07.Graph.verdict_quiet_iff",
     "Verif.C07.Graph.verdict_unused_iff",
+    "Verif.C07.Walk.refs_covered",
+    "Verif.C07.Walk.walk_refs_safe",
+    "Verif.C07.Walk.walk_multi_init_safe",
+    "Verif.C07.Walk.walk_impl_safe",
+    "Verif.C07.Walk.use_target_cases",
+    "Verif.C07.Walk.walk_zero_ref_reported",
+    "Verif.C07.Walk.owners_are_containers",
+    "Verif.C07.Walk.walk_quiet_inside_reported",
+    "Verif.C07.Walk.walk_deletion_safe",
+    "Verif.C07.Emit.emitted_iff",
+    "Verif.C07.Emit.emit_deletion_safe",
+    "Verif.C07.Emit.emit_complete",
 ]
 CORPUS = os.path.join(vlib.VERIF, "corpus", "C07")
 TESTDATA = "unused/testdata/src/example.com"
+MODPATH = "example.com/c07"
 # repository packages that type-check from source with the stdlib source importer only
 # (no third-party imports), small enough for the quick tier
 REPO_PKGS_QUICK = ["go/ir/irutil", "analysis/facts/tokenfile", "go/gcsizes", "internal/sync", "printf"]
@@ -74,6 +100,8 @@ class Struct:
         self.twin_of = None
         self.derived_of = None  # `type d struct-of-other`: shares the field objects, no methods inherited
         self.tparams = False
+        self.pair_lines = []    # [(name1, name2, Ty)]: two fields declared on one line `a, b T`
+        self.tags = {}          # field name -> struct tag
 
     def all_fields(self):
         """(selector name) of fields reachable through promotion, incl. own"""
@@ -143,6 +171,9 @@ class PkgGen:
         self.decls = []
         self.structs, self.ifaces, self.nints, self.funcs = [], [], [], []
         self.vars, self.consts, self.aliases, self.generics, self.gfuncs, self.cfuncs = [], [], [], [], [], []
+        self.pairs = []        # (name, Ty, Ty): functions with two results, called only by initialisers
+        self.variadics = []    # names of `func v(xs ...int)`
+        self.test_lines = []   # statements of the helper in the in-package test file
         self.hist = {}
         self.build()
 
@@ -249,6 +280,16 @@ class PkgGen:
                         self.hit("anon_struct_field")
                     else:
                         s.fields.append((fname, self.any_type(allow_struct_value_below=si)))
+                        if r.chance(1, 6):
+                            s.tags[fname] = '`json:"%s"`' % fname.lower()
+                            self.hit("struct_tag")
+                if r.chance(1, 3):
+                    # two fields on one line: `a, b T`
+                    t2 = self.any_type(allow_struct_value_below=si)
+                    a, b = self.name("f", (1, 6)), self.name("f", (1, 8))
+                    s.fields += [(a, t2), (b, t2)]
+                    s.pair_lines.append((a, b, t2))
+                    self.hit("fields_one_line")
                 if si > 0 and r.chance(2, 5):
                     e = self.structs[r.below(si)]
                     if not e.derived_of:
@@ -264,6 +305,8 @@ class PkgGen:
             if base is not None:
                 # `type d t`: same underlying struct => same field objects, promoted methods of embedded fields
                 s.fields, s.emb_struct, s.emb_iface = base.fields, base.emb_struct, base.emb_iface
+            if s.twin_of is not None:
+                s.pair_lines, s.tags = s.twin_of.pair_lines, {}
             for m in sorted(set(r.choice(POOL) for _ in range(r.below(4)))):
                 s.methods.append((m, r.chance(1, 2)))
             self.structs.append(s)
@@ -289,8 +332,16 @@ class PkgGen:
                 body.append("\t%s%s" % ("*" if s.emb_struct[1] else "", s.emb_struct[0].name))
             if s.emb_iface:
                 body.append("\t" + s.emb_iface.name)
+            paired = {}
+            for a, b, t2 in s.pair_lines:
+                paired[a] = (a, b, t2)
+                paired[b] = None
             for f, t in s.fields:
-                body.append("\t%s %s" % (f, t.expr))
+                if f in paired:
+                    if paired[f] is not None:
+                        body.append("\t%s, %s %s" % (paired[f][0], paired[f][1], paired[f][2].expr))
+                    continue
+                body.append("\t%s %s%s" % (f, t.expr, (" " + s.tags[f]) if f in s.tags else ""))
             self.decls.append("type %s struct {\n%s\n}" % (s.name, "\n".join(body)) if body else "type %s struct{}" % s.name)
         for a, s in self.aliases:
             self.decls.append("type %s = %s" % (a, s.name))
@@ -317,7 +368,15 @@ class PkgGen:
             self.hit("generic_constraint_func")
         # consts
         for _ in range(r.below(3 + size // 4)):
-            c = r.below(4)
+            c = r.below(5)
+            if c == 4:
+                a, b = self.name("cp"), self.name("cp", (1, 8))
+                self.consts.append((a, self.T_INT, False))
+                if r.chance(1, 2):
+                    self.consts.append((b, self.T_INT, False))
+                self.decls.append("const %s, %s = %d, %d" % (a, b, 1 + r.below(5), 1 + r.below(5)))
+                self.hit("const_two_names_one_line")
+                continue
             if c == 0:
                 n = self.name("cs")
                 self.consts.append((n, self.T_INT, True))
@@ -356,6 +415,47 @@ class PkgGen:
             params = [("p%d" % self.uid(), self.any_type()) for _ in range(r.below(3))]
             res = self.any_type() if r.chance(1, 3) else None
             self.funcs.append(Func(nm, params, res))
+        # functions with two results (only ever called by initialisers: no initialisation cycle), variadics
+        for _ in range(r.below(3)):
+            nm = "pr%d" % self.uid()
+            ta, tb = self.any_type(), self.any_type()
+            self.pairs.append((nm, ta, tb))
+            self.decls.append("func %s() (%s, %s) { return %s, %s }" % (nm, ta.expr, tb.expr, ta.zero, tb.zero))
+            self.hit("func_two_results")
+        for _ in range(r.below(2)):
+            nm = self.name("vf", (1, 4))
+            self.variadics.append(nm)
+            self.decls.append("func %s(xs ...int) int { return len(xs) }" % nm)
+            self.hit("func_variadic")
+        # several variables in one spec
+        for _ in range(r.below(2 + size // 4)):
+            c = r.below(3)
+            a, b = self.name("v", (1, 6)), self.name("v", (1, 6))
+            if c == 0 and self.pairs:
+                # `var a, b = f()`: one multi-value initialiser; often only the second name is readable later
+                nm, ta, tb = r.choice(self.pairs)
+                self.decls.append("var %s, %s = %s()" % (a, b, nm))
+                if r.chance(1, 2):
+                    self.vars.append((a, ta))
+                self.vars.append((b, tb))
+                if r.chance(1, 2):
+                    self.decls.append("func %s() { _ = %s }" % (self.name("rd", (1, 2)), b))
+                self.hit("var_multi_value_init")
+            elif c == 1:
+                # `var a, b = x, y`: two objects on one line, often one of them dead
+                ta, tb = self.any_type(), self.any_type()
+                self.decls.append("var %s, %s %s = %s, %s" % (a, b, ta.expr, ta.zero, ta.zero) if r.chance(1, 3)
+                                  else "var %s, %s = %s, %s" % (a, b, self.typed(ta), self.typed(tb)))
+                ta2 = ta
+                self.vars.append((a, ta2))
+                if r.chance(1, 2):
+                    self.decls.append("func %s() { _ = %s }" % (self.name("rd", (1, 2)), a))
+                self.hit("var_two_names_one_line")
+            else:
+                t = self.any_type()
+                self.decls.append("var %s, %s %s" % (a, b, t.expr))
+                self.vars.append((b, t))
+                self.hit("var_two_names_typed")
         # vars
         for _ in range(r.below(3 + size // 3)):
             n = self.name("v", (1, 5))
@@ -403,6 +503,12 @@ class PkgGen:
     def call(self, f):
         return "%s(%s)" % (f.name, ", ".join(t.zero for _, t in f.params))
 
+    def typed(self, t):
+        """an expression of type t that has that type without a declared type"""
+        if t.zero != "nil":
+            return t.zero
+        return "(%s)(nil)" % t.expr
+
     def local(self):
         return "l%d" % self.uid()
 
@@ -433,7 +539,7 @@ class PkgGen:
     def stmt(self, params, recv_of, depth):
         r = self.r
         for _ in range(8):
-            c = r.below(26)
+            c = r.below(34)
             s = self.stmt_kind(c, params, recv_of, depth)
             if s is not None:
                 return s
@@ -656,6 +762,94 @@ class PkgGen:
                 n, t, _ = r.choice(cs)
                 self.hit("stmt_typed_const")
                 return ["_ = %s + %s" % (t.zero, n)]
+        if c == 26 and self.pairs:   # two results: define / local var spec with one shared initialiser
+            nm, ta, tb = r.choice(self.pairs)
+            a, b = self.local(), self.local()
+            k = r.below(3)
+            self.hit("stmt_two_results_%d" % k)
+            if k == 0:
+                return ["%s, %s := %s()" % (a, b, nm), "_, _ = %s, %s" % (a, b)]
+            if k == 1:
+                return ["var %s, %s = %s()" % (a, b, nm), "_ = %s" % a, "_ = %s" % b]
+            return ["_, %s := %s()" % (b, nm), "_ = %s" % b]
+        if c == 27 and self.structs:   # channels, select
+            t = self.any_type()
+            ch = self.local()
+            k = r.below(3)
+            self.hit("stmt_chan_%d" % k)
+            if k == 0:
+                return ["%s := make(chan %s, 1)" % (ch, t.expr), "%s <- %s" % (ch, t.zero), "_ = <-%s" % ch]
+            if k == 1:
+                return ["var %s chan %s" % (ch, t.expr), "select {", "case %s <- %s:" % (ch, t.zero), "default:", "}"]
+            e = self.local()
+            return ["var %s chan %s" % (ch, t.expr), "select {", "case %s := <-%s:" % (e, ch), "\t_ = %s" % e, "default:", "}"]
+        if c == 28:   # switch on a value, labels
+            k = r.below(3)
+            self.hit("stmt_switch_%d" % k)
+            ints = [x for x in self.consts if x[1].kind == "int"]
+            if k == 0 and ints:
+                n, _, _ = r.choice(ints)
+                return ["switch 0 {", "case %s:" % n, "}"]
+            if k == 1 and self.vars:
+                n, t = r.choice(self.vars)
+                if t.kind == "int":
+                    return ["switch %s {" % n, "case 0:", "default:", "}"]
+                return ["switch {", "case true:", "\t_ = %s" % n, "}"]
+            lb = "L%d" % self.uid()
+            return ["%s:" % lb, "for {", "\tbreak %s" % lb, "}"]
+        if c == 29 and self.structs:   # index, slice, variadic call
+            t = self.any_type()
+            l = self.local()
+            k = r.below(3)
+            self.hit("stmt_index_%d" % k)
+            if k == 0:
+                return ["%s := []%s{%s}" % (l, t.expr, t.zero), "_ = %s[0]" % l]
+            if k == 1:
+                return ["%s := map[int]%s{}" % (l, t.expr), "_ = %s[0]" % l, "_ = %s[:0:0]" % ("[]int{}")]
+            if self.variadics:
+                return ["_ = %s(1, 2)" % r.choice(self.variadics)]
+            return ["%s := [2]%s{}" % (l, t.expr), "_ = %s[1:]" % l]
+        if c == 30:   # imported packages (the import may become unused after the deletion)
+            k = r.below(3)
+            self.hit("stmt_import_%d" % k)
+            if k == 0:
+                return ["_ = utf8.RuneLen('a')"]
+            if k == 1:
+                return ["_ = bits.Len(1)"]
+            return ["_ = utf8.UTFMax + bits.UintSize"]
+        if c in (31, 32) and depth == 0 and self.ifaces and self.structs:
+            # function-local struct whose only way to satisfy an interface is the embedded field
+            it = r.choice(self.ifaces)
+            need = it.all_methods()
+            cands = [s for s in self.structs if not s.tparams and need <= s.mset(False)]
+            if not cands:
+                return None
+            es = r.choice(cands)
+            lt = "lt%d" % self.uid()
+            lf = "lf%d" % self.uid()
+            l = self.local()
+            k = r.below(3)
+            self.hit("stmt_local_embed_%d" % k)
+            decl = ["type %s struct {" % lt, "\t%s" % es.name, "\t%s int" % lf, "}"]
+            if k == 0:
+                return decl + ["var %s %s = %s{}" % (l, it.name, lt), "_ = %s" % l]
+            if k == 1:
+                return decl + ["%s := %s{%s: 1}" % (l, lt, lf), "_ = %s(%s)" % (it.name, l)]
+            return decl + ["_ = %s{}" % lt]
+        if c == 33 and depth == 0:   # other function-local declarations
+            k = r.below(3)
+            self.hit("stmt_local_decl_%d" % k)
+            a, b = "lc%d" % self.uid(), "lc%d" % self.uid()
+            if k == 0:
+                return ["const (", "\t%s = iota" % a, "\t%s" % b, ")", "_ = %s" % b]
+            if k == 1 and self.ifaces:
+                li = "li%d" % self.uid()
+                it = r.choice(self.ifaces)
+                l = self.local()
+                return ["type %s interface {" % li, "\t%s" % it.name, "}", "var %s %s" % (l, li), "_ = %s" % l]
+            t = self.any_type()
+            x, y = self.local(), self.local()
+            return ["var %s, %s %s" % (x, y, t.expr), "_, _ = %s, %s" % (x, y)]
         return None
 
     # ---- output
@@ -665,12 +859,1100 @@ class PkgGen:
         decls = list(self.decls) if order is None else [self.decls[i] for i in order]
         names = names or ["f%d.go" % i for i in range(nfiles)]
         out = {}
+        rj = self.r.fork("join")
         for i, n in enumerate(names):
             part = decls[i::nfiles]
-            out[n] = "package %s\n\n%s\n" % (self.pkg, "\n\n".join(part))
+            # several declarations on one line, separated by `;`
+            joined = []
+            for d in part:
+                single = "\n" not in d and d.startswith(("var ", "const ", "type ")) and "(" not in d.split("=")[0]
+                if joined and single and joined[-1][1] and rj.chance(1, 5):
+                    joined[-1] = (joined[-1][0] + "; " + d, True)
+                    self.hit("decls_joined_on_one_line")
+                else:
+                    joined.append((d, single))
+            out[n] = file_text(self.pkg, [d for d, _ in joined])
         return out
 
+    def test_file(self):
+        """an in-package test file whose helper refers to unexported objects (some of them used
+        by nothing else), or None"""
+        r = self.r.fork("testfile")
+        lines = []
+        for f in self.funcs:
+            if f.name[0].islower() and r.chance(1, 3):
+                lines.append("\t_ = %s" % f.name)
+        for n, t in self.vars:
+            if n[0].islower() and r.chance(1, 4):
+                lines.append("\t_ = %s" % n)
+        for n, t, _ in self.consts:
+            if n[0].islower() and r.chance(1, 5):
+                lines.append("\t_ = %s" % n)
+        only = "to%d" % self.uid()
+        th = "th%d" % self.uid()
+        extra = "func %s() int { return 1 }" % only
+        lines.append("\t_ = %s" % only)
+        self.hit("test_file")
+        return extra, "package %s\n\nfunc %s() {\n%s\n}\n\nvar tv%d = %s()\n" % (self.pkg, th, "\n".join(lines), self.uid(), only)
 
+
+IMPORTS = {"utf8.": "unicode/utf8", "bits.": "math/bits"}
+
+
+def file_text(pkg, decls):
+    body = "\n\n".join(decls)
+    imps = sorted(set(p for k, p in IMPORTS.items() if k in body))
+    head = "package %s\n\n" % pkg
+    if imps:
+        head += "import (\n%s\n)\n\n" % "\n".join('\t"%s"' % p for p in imps)
+    return head + body + "\n"
+
+
+
+# ============================================================================ fragment generator
+M1, M2 = "\x01", "\x02"
+FPOOL = ["m0", "m1", "m2", "M3"]
+
+
+class FObj:
+    """one declared object of a fragment package"""
+
+    def __init__(self, oid, kind, ident, display=None):
+        self.id = oid
+        self.kind = kind            # func type var field const
+        self.ident = ident          # the identifier as written
+        self.display = display or ident   # unused.Object.Name
+        self.label = None           # "<kind> <display> @<base>:<line>:<col>" after rendering
+
+    def d(self):
+        """the declaring occurrence, with a position marker"""
+        return "%s%d%s%s" % (M1, self.id, M2, self.ident)
+
+
+def cls_of(ident):
+    if ident == "_":
+        return 2
+    return 1 if ident[0].isupper() else 0
+
+
+class TInfo:
+    """type of a variable / field / parameter"""
+
+    def __init__(self, kind, ent=None):
+        self.kind, self.ent = kind, ent   # int | struct | ptr | iface | func | named
+
+    def expr(self):
+        return {"int": "int", "func": "func()"}.get(self.kind) or (("*" if self.kind == "ptr" else "") + self.ent.name)
+
+    def reads(self):
+        return [] if self.kind in ("int", "func") else [self.ent.obj]
+
+    def zero(self):
+        """(expression, reads)"""
+        if self.kind == "int":
+            return "0", []
+        if self.kind == "struct":
+            return self.ent.name + "{}", [self.ent.obj]
+        if self.kind == "named":
+            return self.ent.name + "(0)", [self.ent.obj]
+        return "nil", []
+
+
+class FStruct:
+    def __init__(self, obj, name, local=False):
+        self.obj, self.name, self.local = obj, name, local
+        self.fields = []     # (FObj, TInfo)   one entry per name
+        self.lines = []      # rendering: list of lists of field indexes sharing one line (`a, b T`)
+        self.emb_struct = None   # (FObj field, FStruct, byptr)
+        self.emb_iface = None    # (FObj field, FIface)
+        self.methods = []    # (FObj, mname, ptr_recv, sig)
+
+    def own_method_names(self):
+        return set(m for _, m, _, _ in self.methods)
+
+    def msig(self, ptr):
+        """{method name: result signature} of the method set of T / *T"""
+        own = self.own_method_names()
+        d = {}
+        if self.emb_iface:
+            for m in self.emb_iface[1].all_methods() - own:
+                d[m] = ""
+        if self.emb_struct:
+            _, es, byptr = self.emb_struct
+            for m, sig in es.msig(ptr or byptr).items():
+                if m not in own:
+                    d[m] = sig
+        for _, m, p, sig in self.methods:
+            if ptr or not p:
+                d[m] = sig
+        return d
+
+    def mset(self, ptr):
+        return set(self.msig(ptr))
+
+    def implements(self, it, ptr):
+        d = self.msig(ptr)
+        return all(d.get(m) == "" for m in it.all_methods())
+
+    def has_exported_field(self, seen=None):
+        seen = seen or set()
+        if id(self) in seen:
+            return False
+        seen.add(id(self))
+        for f, _ in self.fields:
+            if cls_of(f.ident) == 1:
+                return True
+        if self.emb_struct:
+            f, es, _ = self.emb_struct
+            if cls_of(f.ident) == 1 or es.has_exported_field(seen):
+                return True
+        if self.emb_iface:
+            f, _ = self.emb_iface
+            if cls_of(f.ident) == 1:
+                return True
+        return False
+
+
+class FIface:
+    def __init__(self, obj, name, local=False):
+        self.obj, self.name, self.local = obj, name, local
+        self.methods = []   # (FObj, mname, sig)
+        self.embeds = []    # FIface
+
+    def all_methods(self):
+        s = set(m for _, m, _ in self.methods)
+        for e in self.embeds:
+            s |= e.all_methods()
+        return s
+
+
+class FOther:
+    """`type n int` or `type d S` (derived struct)"""
+
+    def __init__(self, obj, name, base=None):
+        self.obj, self.name, self.base = obj, name, base   # base: FStruct or None (int)
+
+
+class FFunc:
+    def __init__(self, obj, ident):
+        self.obj, self.ident = obj, ident
+        self.params = []     # (FObj, TInfo)
+        self.results = []    # TInfo
+        self.recv = None     # (FObj, entity, ptr)
+        self.items = []      # AP items (python form, reads may hold deferred selections)
+        self.lines = []      # body text lines
+
+
+class Deferred:
+    """a method selection whose path comes from the go/types facts: (type entity, pointer method set?, method name)"""
+
+    def __init__(self, ent, ptr, mname):
+        self.ent, self.ptr, self.mname = ent, ptr, mname
+
+
+class FragGen:
+    """Generator of packages INSIDE the fragment modelled by lean/Verif/C07/Walk.lean.  It
+    produces the Go text and, independently of /repo, the abstract package (the reads of
+    every expression are known by construction; method sets come from go/types through the
+    harness)."""
+
+    def __init__(self, rng, size, pkg="q"):
+        self.r = rng
+        self.size = size
+        self.pkg = pkg
+        self.objs = []
+        self.n = 0
+        self.ifaces, self.structs, self.others, self.aliases = [], [], [], []
+        self.funcs, self.vars, self.consts = [], [], []   # vars: (FObj, TInfo) readable package-level vars
+        self.tops = []     # (text lines, ap top)   in declaration order
+        self.hist = {}
+        self.type_ents = {}   # FObj.id of a type -> entity
+        self.build()
+
+    # ---------------------------------------------------------------- helpers
+    def hit(self, k):
+        self.hist[k] = self.hist.get(k, 0) + 1
+
+    def uid(self):
+        self.n += 1
+        return self.n
+
+    def new(self, kind, prefix, exported=False, display=None, ident=None):
+        if ident is None:
+            ident = "%s%d" % (prefix, self.uid())
+            if exported:
+                ident = ident[0].upper() + ident[1:]
+        o = FObj(len(self.objs) + 1, kind, ident, display)
+        self.objs.append(o)
+        return o
+
+    def any_tinfo(self, structs=None, allow_value=True):
+        r = self.r
+        structs = self.structs if structs is None else structs
+        c = r.below(8)
+        if c <= 1 or not structs:
+            return TInfo("int")
+        if c == 2 and allow_value:
+            return TInfo("struct", r.choice(structs))
+        if c <= 4:
+            return TInfo("ptr", r.choice(structs))
+        if c == 5 and self.ifaces:
+            return TInfo("iface", r.choice(self.ifaces))
+        if c == 6:
+            return TInfo("func")
+        if c == 7 and self.others:
+            o = r.choice(self.others)
+            if o.base is None:
+                return TInfo("named", o)
+        return TInfo("int")
+
+    # ---------------------------------------------------------------- declarations
+    def mk_struct(self, prefix, earlier, local=False, force_embed=None):
+        """a struct type that may embed one earlier struct and one interface"""
+        r = self.r
+        name_obj = self.new("type", prefix, exported=(not local and r.chance(1, 5)))
+        s = FStruct(name_obj, name_obj.ident, local)
+        taken = set()
+        emb = force_embed
+        if emb is None and earlier and r.chance(2, 5):
+            emb = r.choice(earlier)
+        if emb is not None:
+            byptr = r.chance(1, 3)
+            f = self.new("field", "", ident=emb.name)
+            s.emb_struct = (f, emb, byptr)
+            taken |= emb.mset(True)
+            self.hit("frag_embedded_struct" + ("_local" if local else ""))
+        if self.ifaces and r.chance(1, 5):
+            it = r.choice(self.ifaces)
+            if not (it.all_methods() & taken):
+                f = self.new("field", "", ident=it.name)
+                s.emb_iface = (f, it)
+                taken |= it.all_methods()
+                self.hit("frag_embedded_iface")
+        k = r.below(4)
+        i = 0
+        while i < k:
+            t = self.any_tinfo(structs=earlier, allow_value=True)
+            group = 2 if (r.chance(1, 3) and i + 1 < k) else 1
+            line = []
+            for _ in range(group):
+                f = self.new("field", "f", exported=r.chance(1, 6))
+                s.fields.append((f, t))
+                line.append(len(s.fields) - 1)
+                i += 1
+            if group == 2:
+                self.hit("frag_fields_one_line")
+            s.lines.append(line)
+        if r.chance(1, 12) and not local:
+            f = self.new("field", "", ident="_")
+            s.fields.append((f, TInfo("int")))
+            s.lines.append([len(s.fields) - 1])
+            self.hit("frag_blank_field")
+        if not local:
+            for m in sorted(set(r.choice(FPOOL) for _ in range(r.below(3)))):
+                ptr = r.chance(1, 2)
+                sig = "int" if (m == "m2" and r.chance(1, 4)) else ""   # a signature that does not match the interfaces' m2()
+                disp = ("(*%s).%s" if ptr else "%s.%s") % (s.name, m)
+                mo = self.new("func", "", ident=m, display=disp)
+                s.methods.append((mo, m, ptr, sig))
+                if sig:
+                    self.hit("frag_method_other_signature")
+                if m in taken:
+                    self.hit("frag_method_shadows_promoted")
+        return s
+
+    def struct_text_and_ap(self, s):
+        lines = []
+        if s.emb_struct:
+            f, es, byptr = s.emb_struct
+            lines.append("\t%s%s" % ("*" if byptr else "", f.d()))
+        if s.emb_iface:
+            f, it = s.emb_iface
+            lines.append("\t" + f.d())
+        for line in s.lines:
+            t = s.fields[line[0]][1]
+            lines.append("\t%s %s" % (", ".join(s.fields[i][0].d() for i in line), t.expr()))
+        if lines:
+            text = ["type %s struct {" % s.obj.d()] + lines + ["}"]
+        else:
+            text = ["type %s struct{}" % s.obj.d()]
+        fields = [(f, cls_of(f.ident), t.reads()) for f, t in s.fields]
+        embs = []
+        if s.emb_struct:
+            f, es, _ = s.emb_struct
+            embs.append((f, cls_of(f.ident) == 1, es.obj, es.has_exported_field()))
+        if s.emb_iface:
+            f, it = s.emb_iface
+            embs.append((f, cls_of(f.ident) == 1, it.obj, False))
+        ap = {"obj": s.obj, "cls": cls_of(s.obj.ident), "alias": False, "body": ("S", fields, embs)}
+        return text, ap
+
+    def iface_text_and_ap(self, it):
+        lines = ["\t" + e.name for e in it.embeds] + ["\t%s()%s" % (m.d(), (" " + sig) if sig else "") for m, _, sig in it.methods]
+        text = ["type %s interface {" % it.obj.d()] + lines + ["}"]
+        meths = [(m, (mn, sig), []) for m, mn, sig in it.methods]
+        ap = {"obj": it.obj, "cls": cls_of(it.obj.ident), "alias": False, "body": ("I", meths, [e.obj for e in it.embeds])}
+        return text, ap
+
+    def build(self):
+        r, size = self.r, self.size
+        # ---- interfaces
+        for _ in range(1 + r.below(2 + size // 4)):
+            o = self.new("type", "i", exported=r.chance(1, 6))
+            it = FIface(o, o.ident)
+            if self.ifaces and r.chance(1, 3):
+                e = r.choice(self.ifaces)
+                it.embeds.append(e)
+                self.hit("frag_iface_embeds_iface")
+            have = it.all_methods()
+            for m in sorted(set(r.choice(FPOOL) for _ in range(1 + r.below(2)))):
+                if m in have:
+                    continue
+                mo = self.new("func", "", ident=m, display="%s.%s" % (it.name, m))
+                it.methods.append((mo, m, ""))
+            if not it.methods and not it.embeds:
+                mo = self.new("func", "", ident="m0", display="%s.m0" % it.name)
+                it.methods.append((mo, "m0", ""))
+            self.ifaces.append(it)
+            self.type_ents[o.id] = it
+        # ---- structs
+        for _ in range(2 + r.below(2 + size // 3)):
+            s = self.mk_struct("t", [x for x in self.structs])
+            self.structs.append(s)
+            self.type_ents[s.obj.id] = s
+        # ---- other named types, aliases
+        for _ in range(r.below(3)):
+            o = self.new("type", "n")
+            base = r.choice(self.structs) if r.chance(1, 2) else None
+            ot = FOther(o, o.ident, base)
+            self.others.append(ot)
+            self.type_ents[o.id] = ot
+            self.hit("frag_derived_struct" if base else "frag_named_int")
+        for _ in range(r.below(2)):
+            o = self.new("type", "a")
+            s = r.choice(self.structs)
+            self.aliases.append((o, s))
+            self.hit("frag_alias")
+        # ---- methods of the other named types
+        for ot in self.others:
+            if ot.base is None and r.chance(1, 2):
+                m = r.choice(FPOOL)
+                mo = self.new("func", "", ident=m, display="%s.%s" % (ot.name, m))
+                ot.methods = [(mo, m, False, "")]
+            else:
+                ot.methods = []
+        # ---- constants
+        self.const_tops = []
+        for _ in range(r.below(2 + size // 4)):
+            c = r.below(4)
+            if c == 0:
+                o = self.new("const", "c", exported=r.chance(1, 6))
+                self.consts.append(o)
+                self.const_tops.append((["const %s = %d" % (o.d(), 1 + r.below(7))],
+                                        ("G", ("C", [{"names": [(o, cls_of(o.ident))], "typeReads": [], "values": [[]]}], [[o]]))))
+                self.hit("frag_const_standalone")
+            elif c == 1:
+                a, b = self.new("const", "c"), self.new("const", "c", exported=r.chance(1, 6))
+                self.consts += [a, b]
+                self.const_tops.append((["const %s, %s = 1, 2" % (a.d(), b.d())],
+                                        ("G", ("C", [{"names": [(a, 0), (b, cls_of(b.ident))], "typeReads": [], "values": [[], []]}], [[a, b]]))))
+                self.hit("frag_const_two_names_one_line")
+            else:
+                names = [self.new("const", "c", exported=r.chance(1, 8)) for _ in range(2 + r.below(3))]
+                self.consts += names
+                typed = self.others and r.chance(1, 3) and [x for x in self.others if x.base is None]
+                tn = r.choice(typed) if typed else None
+                lines = ["const ("] + ["\t%s%s = iota" % (names[0].d(), (" " + tn.name) if tn else "")] + ["\t" + x.d() for x in names[1:]]
+                groups = [names]
+                specs = [{"names": [(names[0], cls_of(names[0].ident))], "typeReads": [tn.obj] if tn else [], "values": [[]]}] + \
+                        [{"names": [(x, cls_of(x.ident))], "typeReads": [], "values": []} for x in names[1:]]
+                if r.chance(1, 3):
+                    more = [self.new("const", "c") for _ in range(1 + r.below(2))]
+                    self.consts += more
+                    lines += [""] + ["\t" + x.d() for x in more]
+                    groups.append(more)
+                    specs += [{"names": [(x, 0)], "typeReads": [], "values": []} for x in more]
+                    self.hit("frag_const_two_groups")
+                lines.append(")")
+                self.const_tops.append((lines, ("G", ("C", specs, groups))))
+                self.hit("frag_const_iota_group")
+        # ---- function signatures
+        n_fn = 3 + r.below(2 + size)
+        for k in range(n_fn):
+            o = self.new("func", "fn", exported=(k == 0 or r.chance(1, 4)))
+            f = FFunc(o, o.ident)
+            for _ in range(r.below(3)):
+                f.params.append((self.new("var", "p"), self.any_tinfo()))
+            nres = r.below(3) if r.chance(1, 3) else 0
+            f.results = [self.any_tinfo() for _ in range(nres)]
+            self.funcs.append(f)
+        # ---- package-level variables
+        self.var_tops = []
+        for _ in range(r.below(3 + size // 3)):
+            c = r.below(6)
+            two = [g for g in self.funcs if len(g.results) == 2]
+            if c == 0 and two:
+                # var a, b = f()   one shared multi-value initialiser
+                g = r.choice(two)
+                a = self.new("var", "v", exported=r.chance(1, 8))
+                b = self.new("var", "v", exported=r.chance(1, 8))
+                self.vars += [(a, g.results[0]), (b, g.results[1])]
+                call, reads = self.call(g)
+                self.var_tops.append((["var %s, %s = %s" % (a.d(), b.d(), call)],
+                                      ("G", ("V", [{"names": [(a, cls_of(a.ident)), (b, cls_of(b.ident))], "typeReads": [], "values": [reads]}]))))
+                self.hit("frag_var_multi_value_init")
+            elif c == 1:
+                # var a, b = x, y   two names, two values, one line
+                ta, tb = self.any_tinfo(), self.any_tinfo()
+                a, b = self.new("var", "v", exported=r.chance(1, 8)), self.new("var", "v")
+                self.vars += [(a, ta), (b, tb)]
+                (za, ra), (zb, rb) = self.typed_zero(ta), self.typed_zero(tb)
+                self.var_tops.append((["var %s, %s = %s, %s" % (a.d(), b.d(), za, zb)],
+                                      ("G", ("V", [{"names": [(a, cls_of(a.ident)), (b, 0)], "typeReads": [], "values": [ra, rb]}]))))
+                self.hit("frag_var_two_names_one_line")
+            elif c == 2:
+                t = self.any_tinfo()
+                a, b = self.new("var", "v"), self.new("var", "v")
+                self.vars += [(a, t), (b, t)]
+                self.var_tops.append((["var %s, %s %s" % (a.d(), b.d(), t.expr())],
+                                      ("G", ("V", [{"names": [(a, 0), (b, 0)], "typeReads": t.reads(), "values": []}]))))
+                self.hit("frag_var_two_names_typed")
+            elif c == 3:
+                one = [g for g in self.funcs if len(g.results) == 1]
+                if not one:
+                    continue
+                g = r.choice(one)
+                a = self.new("var", "v", exported=r.chance(1, 8))
+                self.vars.append((a, g.results[0]))
+                call, reads = self.call(g)
+                self.var_tops.append((["var %s = %s" % (a.d(), call)],
+                                      ("G", ("V", [{"names": [(a, cls_of(a.ident))], "typeReads": [], "values": [reads]}]))))
+                self.hit("frag_var_init_call")
+            else:
+                t = self.any_tinfo()
+                a = self.new("var", "v", exported=r.chance(1, 8))
+                self.vars.append((a, t))
+                if r.chance(1, 2):
+                    z, rz = t.zero()
+                    self.var_tops.append((["var %s %s = %s" % (a.d(), t.expr(), z)],
+                                          ("G", ("V", [{"names": [(a, cls_of(a.ident))], "typeReads": t.reads(), "values": [rz]}]))))
+                else:
+                    self.var_tops.append((["var %s %s" % (a.d(), t.expr())],
+                                          ("G", ("V", [{"names": [(a, cls_of(a.ident))], "typeReads": t.reads(), "values": []}]))))
+        # ---- bodies
+        for s in self.structs:
+            for mo, m, ptr, sig in s.methods:
+                f = FFunc(mo, m)
+                f.recv = (self.new("var", "r"), s, ptr)
+                f.results = [TInfo("int")] if sig else []
+                self.body(f, 1 + r.below(2))
+                s_top = self.func_top(f)
+                self.tops.append(s_top)
+        for ot in self.others:
+            for mo, m, ptr, sig in ot.methods:
+                f = FFunc(mo, m)
+                f.recv = (self.new("var", "r"), ot, False)
+                self.body(f, 1)
+                self.tops.append(self.func_top(f))
+        for f in self.funcs:
+            self.body(f, 1 + r.below(4))
+            self.tops.append(self.func_top(f))
+        # type declarations first in the AP order does not matter (set semantics); text order: types, consts, vars, funcs
+        type_tops = []
+        for it in self.ifaces:
+            t, ap = self.iface_text_and_ap(it)
+            type_tops.append((t, ("G", ("T", [ap]))))
+        for s in self.structs:
+            t, ap = self.struct_text_and_ap(s)
+            type_tops.append((t, ("G", ("T", [ap]))))
+        for ot in self.others:
+            base = ot.base.name if ot.base else "int"
+            type_tops.append((["type %s %s" % (ot.obj.d(), base)],
+                              ("G", ("T", [{"obj": ot.obj, "cls": 0, "alias": False, "body": ("O", [ot.base.obj] if ot.base else [])}]))))
+        for o, s in self.aliases:
+            type_tops.append((["type %s = %s" % (o.d(), s.name)],
+                              ("G", ("T", [{"obj": o, "cls": 0, "alias": True, "body": ("O", [s.obj])}]))))
+        self.tops = type_tops + self.const_tops + self.var_tops + self.tops
+
+    # ---------------------------------------------------------------- expressions
+    def typed_zero(self, t):
+        """(expression, reads) of a value whose type is t even without a declared type"""
+        if t.kind == "ptr":
+            return "(*%s)(nil)" % t.ent.name, [t.ent.obj]
+        if t.kind == "iface":
+            return "%s(nil)" % t.ent.name, [t.ent.obj]
+        if t.kind == "func":
+            return "(func())(nil)", []
+        return t.zero()
+
+    def call(self, g, avoid=None):
+        """(text, reads) of a call of function g with zero arguments"""
+        args, reads = [], [g.obj]
+        for _, t in g.params:
+            z, rz = t.zero()
+            args.append(z)
+            reads += rz
+        return "%s(%s)" % (g.ident, ", ".join(args)), reads
+
+    def implementers(self, it):
+        out = []
+        for s in self.structs:
+            if s.implements(it, False):
+                out.append((s.name + "{}", [s.obj]))
+            if s.implements(it, True):
+                out.append(("&" + s.name + "{}", [s.obj]))
+        return out
+
+    # ---------------------------------------------------------------- bodies
+    def body(self, f, k):
+        """fills f.items and f.lines"""
+        items, lines = [], []
+        if f.recv:
+            ro, ent, ptr = f.recv
+            items.append(("s", ro, True))
+            items.append(("p", ro, [ent.obj]))
+        for p, t in f.params:
+            items.append(("s", p, True))
+            items.append(("p", p, t.reads()))
+        for t in f.results:
+            if t.reads():
+                items.append(("r", t.reads()))
+        # functions with results initialise package-level variables: their bodies stay clear of
+        # variables, calls and methods (no initialisation cycle)
+        env = {"f": f, "locals": [(p, t) for p, t in f.params], "pure": bool(f.results) and f.recv is None}
+        if f.recv:
+            ro, ent, ptr = f.recv
+            if isinstance(ent, FStruct):
+                env["locals"].append((ro, TInfo("ptr" if ptr else "struct", ent)))
+        for _ in range(k):
+            it, ls = self.stmt(env, 0)
+            items += it
+            lines += ls
+        if f.results:
+            zs, reads = [], []
+            for t in f.results:
+                z, rz = t.zero()
+                zs.append(z)
+                reads += rz
+            lines.append("return " + ", ".join(zs))
+            if reads:
+                items.append(("r", reads))
+        f.items, f.lines = items, lines
+
+    def local(self, prefix="l"):
+        return self.new("var", prefix)
+
+    def stmt(self, env, depth):
+        r = self.r
+        for _ in range(10):
+            c = r.below(20)
+            if env["pure"] and c in (0, 1, 2, 3, 9, 10, 11, 12, 15):
+                continue
+            out = self.stmt_kind(c, env, depth)
+            if out is not None:
+                return out
+        return [], ["_ = 0"]
+
+    def stmt_kind(self, c, env, depth):
+        r = self.r
+        if c <= 2 and self.funcs:     # calls
+            g = r.choice(self.funcs)
+            call, reads = self.call(g)
+            k = r.below(5)
+            self.hit("frag_stmt_call_%d" % k)
+            if k == 0:
+                lhs = ", ".join("_" for _ in g.results)
+                return [("r", reads)], [(lhs + " = " if g.results else "") + call]
+            if k == 1:
+                return [("r", reads)], ["defer " + call]
+            if k == 2:
+                return [("r", reads)], ["go " + call]
+            if k == 3:
+                return [("r", [g.obj])], ["_ = " + g.ident]
+            if len(g.results) == 2:
+                a, b = self.local(), self.local()
+                self.hit("frag_define_two_from_call")
+                return [("s", a, True), ("s", b, True), ("r", reads), ("r", [a]), ("r", [b])], \
+                       ["%s, %s := %s" % (a.d(), b.d(), call), "_ = " + a.ident, "_ = " + b.ident]
+            l = self.local()
+            return [("s", l, True), ("r", [g.obj]), ("r", [l])], ["%s := %s" % (l.d(), g.ident), "_ = " + l.ident]
+        if c == 3 and self.vars:      # package-level variable: read / store
+            v, t = r.choice(self.vars)
+            k = r.below(3)
+            self.hit("frag_stmt_var_%d" % k)
+            if k <= 1:
+                return [("r", [v])], ["_ = " + v.ident]
+            z, rz = t.zero()
+            return ([("r", rz)] if rz else []), ["%s = %s" % (v.ident, z)]
+        if c == 4 and self.consts:
+            co = r.choice(self.consts)
+            self.hit("frag_stmt_const")
+            return [("r", [co])], ["_ = " + co.ident]
+        if c in (5, 6) and self.structs:   # type uses
+            s = r.choice(self.structs)
+            k = r.below(6)
+            self.hit("frag_stmt_type_%d" % k)
+            if k == 0:
+                l = self.local()
+                return [("s", l, True), ("g", ("V", [{"names": [(l, 0)], "typeReads": [s.obj], "values": []}])), ("r", [l])], \
+                       ["var %s %s" % (l.d(), s.name), "_ = " + l.ident]
+            if k == 1:
+                return [("r", [s.obj])], ["_ = new(%s)" % s.name]
+            if k == 2:
+                return [("r", [s.obj])], ["_ = &%s{}" % s.name]
+            if k == 3:
+                return [("r", [s.obj])], ["_ = []%s{}" % s.name]
+            if k == 4 and self.aliases:
+                ao, als = r.choice(self.aliases)
+                l = self.local()
+                return [("s", l, True), ("g", ("V", [{"names": [(l, 0)], "typeReads": [ao], "values": []}])), ("r", [l])], \
+                       ["var %s %s" % (l.d(), ao.ident), "_ = " + l.ident]
+            a, b = self.local(), self.local()
+            self.hit("frag_local_var_two_names_typed")
+            return [("s", a, True), ("s", b, True),
+                    ("g", ("V", [{"names": [(a, 0), (b, 0)], "typeReads": [s.obj], "values": []}])), ("r", [a]), ("r", [b])], \
+                   ["var %s, %s %s" % (a.d(), b.d(), s.name), "_, _ = %s, %s" % (a.ident, b.ident)]
+        if c in (7, 8) and self.structs:   # fields: read, write, keyed literal, promoted
+            s = r.choice(self.structs)
+            own = [(f, t) for f, t in s.fields if f.ident != "_"]
+            k = r.below(4)
+            if k == 3 and s.emb_struct:
+                ef, es, byptr = s.emb_struct
+                cand = [(f, t) for f, t in es.fields if f.ident != "_"]
+                if cand and not byptr:
+                    f, t = r.choice(cand)
+                    l = self.local()
+                    self.hit("frag_stmt_promoted_field")
+                    return [("s", l, True), ("g", ("V", [{"names": [(l, 0)], "typeReads": [s.obj], "values": []}])),
+                            ("r", [l, f, ef, f])], ["var %s %s" % (l.d(), s.name), "_ = %s.%s" % (l.ident, f.ident)]
+                return None
+            if not own:
+                return None
+            f, t = r.choice(own)
+            self.hit("frag_stmt_field_%d" % k)
+            l = self.local()
+            decl = [("s", l, True), ("g", ("V", [{"names": [(l, 0)], "typeReads": [s.obj], "values": []}]))]
+            if k == 0:
+                return decl + [("r", [l, f, f])], ["var %s %s" % (l.d(), s.name), "_ = %s.%s" % (l.ident, f.ident)]
+            if k == 1:
+                z, rz = t.zero()
+                return decl + [("r", [l, f, f] + rz)], ["var %s %s" % (l.d(), s.name), "%s.%s = %s" % (l.ident, f.ident, z)]
+            z, rz = t.zero()
+            return [("r", [s.obj, f] + rz)], ["_ = %s{%s: %s}" % (s.name, f.ident, z)]
+        if c in (9, 10) and self.structs:   # methods: call on a variable, method value, method expression
+            s = r.choice(self.structs)
+            ms = sorted(s.mset(True))
+            if not ms:
+                return None
+            m = r.choice(ms)
+            k = r.below(4)
+            self.hit("frag_stmt_method_%d" % k)
+            l = self.local()
+            decl = [("s", l, True), ("g", ("V", [{"names": [(l, 0)], "typeReads": [s.obj], "values": []}]))]
+            sel = Deferred(s, True, m)
+            if k == 0:
+                return decl + [("r", [l, sel])], ["var %s %s" % (l.d(), s.name), "%s.%s()" % (l.ident, m)]
+            if k == 1:
+                return decl + [("r", [l, sel])], ["var %s %s" % (l.d(), s.name), "_ = %s.%s" % (l.ident, m)]
+            if k == 2:
+                if m in s.mset(False):
+                    return [("r", [s.obj, Deferred(s, False, m)])], ["_ = %s.%s" % (s.name, m)]
+                return [("r", [s.obj, sel])], ["_ = (*%s).%s" % (s.name, m)]
+            return decl + [("r", [l, sel])], ["var %s %s" % (l.d(), s.name), "defer %s.%s()" % (l.ident, m)]
+        if c in (11, 12) and self.ifaces:   # implicit conversions to interfaces
+            it = r.choice(self.ifaces)
+            impl = self.implementers(it)
+            m = r.choice(sorted(it.all_methods()))
+            k = r.below(4)
+            self.hit("frag_stmt_iface_%d" % k)
+            l = self.local()
+            if k == 0 and impl:
+                e, re_ = r.choice(impl)
+                return [("s", l, True), ("g", ("V", [{"names": [(l, 0)], "typeReads": [it.obj], "values": [re_]}])),
+                        ("r", [l, Deferred(it, False, m)])], ["var %s %s = %s" % (l.d(), it.name, e), "%s.%s()" % (l.ident, m)]
+            if k == 1 and impl:
+                # pass a concrete value where a parameter of interface type is expected
+                takers = [g for g in self.funcs if len(g.params) == 1 and g.params[0][1].kind == "iface" and g.params[0][1].ent is it]
+                if takers:
+                    g = r.choice(takers)
+                    e, re_ = r.choice(impl)
+                    self.hit("frag_iface_arg_conversion")
+                    lhs = ", ".join("_" for _ in g.results)
+                    return [("r", [g.obj] + re_)], [(lhs + " = " if g.results else "") + "%s(%s)" % (g.ident, e)]
+                e, re_ = r.choice(impl)
+                return [("s", l, True), ("g", ("V", [{"names": [(l, 0)], "typeReads": [it.obj], "values": [re_]}])), ("r", [l])], \
+                       ["var %s %s = %s" % (l.d(), it.name, e), "_ = " + l.ident]
+            if k == 2:
+                return [("s", l, True), ("g", ("V", [{"names": [(l, 0)], "typeReads": [it.obj], "values": []}])),
+                        ("r", [l, Deferred(it, False, m)])], ["var %s %s" % (l.d(), it.name), "_ = %s.%s" % (l.ident, m)]
+            return [("s", l, True), ("g", ("V", [{"names": [(l, 0)], "typeReads": [], "values": []}])), ("r", [l, it.obj])], \
+                   ["var %s any" % l.d(), "_, _ = %s.(%s)" % (l.ident, it.name)]
+        if c in (13, 14) and depth == 0 and self.structs:   # function-local types
+            k = r.below(4)
+            if k <= 1:
+                # local struct embedding a package-level type, used only through an interface conversion (seeded C07-1-1)
+                cands = [(it, s) for it in self.ifaces for s in self.structs if s.implements(it, False)]
+                if not cands:
+                    return None
+                it, es = r.choice(cands)
+                lt = self.mk_struct("lt", [], local=True, force_embed=es)
+                if lt.emb_struct[2]:
+                    lt.emb_struct = (lt.emb_struct[0], es, False)
+                self.type_ents[lt.obj.id] = lt
+                text, ap = self.struct_text_and_ap(lt)
+                l = self.local()
+                self.hit("frag_local_struct_embeds_for_iface")
+                items = [("s", lt.obj, False), ("g", ("T", [ap])), ("s", l, True),
+                         ("g", ("V", [{"names": [(l, 0)], "typeReads": [it.obj], "values": [[lt.obj]]}])), ("r", [l])]
+                return items, text + ["var %s %s = %s{}" % (l.d(), it.name, lt.name), "_ = " + l.ident]
+            if k == 2:
+                lt = self.mk_struct("lt", list(self.structs), local=True)
+                self.type_ents[lt.obj.id] = lt
+                text, ap = self.struct_text_and_ap(lt)
+                self.hit("frag_local_struct")
+                items = [("s", lt.obj, False), ("g", ("T", [ap]))]
+                lines = list(text)
+                if r.chance(2, 3):
+                    items.append(("r", [lt.obj]))
+                    lines.append("_ = %s{}" % lt.name)
+                return items, lines
+            o = self.new("type", "li")
+            it = FIface(o, o.ident, local=True)
+            m = r.choice(FPOOL)
+            mo = self.new("func", "", ident=m, display="%s.%s" % (it.name, m))
+            it.methods.append((mo, m, ""))
+            self.type_ents[o.id] = it
+            text, ap = self.iface_text_and_ap(it)
+            self.hit("frag_local_iface")
+            l = self.local()
+            return [("s", o, False), ("g", ("T", [ap])), ("s", l, True),
+                    ("g", ("V", [{"names": [(l, 0)], "typeReads": [o], "values": []}])), ("r", [l])], \
+                   text + ["var %s %s" % (l.d(), it.name), "_ = " + l.ident]
+        if c == 15:   # local constants and multi-value local var
+            k = r.below(3)
+            two = [g for g in self.funcs if len(g.results) == 2]
+            if k == 0 and two:
+                g = r.choice(two)
+                a, b = self.local(), self.local()
+                call, reads = self.call(g)
+                self.hit("frag_local_var_multi_value_init")
+                return [("s", a, True), ("s", b, True),
+                        ("g", ("V", [{"names": [(a, 0), (b, 0)], "typeReads": [], "values": [reads]}])), ("r", [a]), ("r", [b])], \
+                       ["var %s, %s = %s" % (a.d(), b.d(), call), "_ = " + a.ident, "_ = " + b.ident]
+            lc = self.new("const", "lc")
+            self.hit("frag_local_const")
+            use = r.chance(1, 2)
+            return [("s", lc, False), ("g", ("C", [{"names": [(lc, 0)], "typeReads": [], "values": [[]]}], [[lc]]))] + \
+                   ([("r", [lc])] if use else []), ["const %s = 1" % lc.d()] + (["_ = " + lc.ident] if use else [])
+        if c == 16 and env["locals"]:
+            p, t = r.choice(env["locals"])
+            self.hit("frag_stmt_param")
+            return [("r", [p])], ["_ = " + p.ident]
+        if c in (17, 18) and depth < 2:   # nesting: blocks and closures, same `by`
+            inner_items, inner_lines = self.stmt(env, depth + 1)
+            k = r.below(5)
+            self.hit("frag_stmt_nest_%d" % k)
+            if k == 0:
+                return inner_items, ["if true {"] + ["\t" + x for x in inner_lines] + ["}"]
+            if k == 1:
+                i = self.local("i")
+                return [("s", i, True), ("r", [i])] + inner_items, \
+                       ["for %s := 0; %s < 1; %s++ {" % (i.d(), i.ident, i.ident)] + ["\t" + x for x in inner_lines] + ["}"]
+            if k == 2:
+                return inner_items, ["func() {"] + ["\t" + x for x in inner_lines] + ["}()"]
+            if k == 3:
+                return inner_items, ["defer func() {"] + ["\t" + x for x in inner_lines] + ["}()"]
+            l = self.local()
+            return [("s", l, True), ("r", [l])] + inner_items, \
+                   ["%s := func() {" % l.d()] + ["\t" + x for x in inner_lines] + ["}", l.ident + "()"]
+        if c == 19 and self.others:
+            ot = r.choice(self.others)
+            self.hit("frag_stmt_other_type")
+            l = self.local()
+            return [("s", l, True), ("g", ("V", [{"names": [(l, 0)], "typeReads": [ot.obj], "values": []}])), ("r", [l])], \
+                   ["var %s %s" % (l.d(), ot.name), "_ = " + l.ident]
+        return None
+
+    def func_top(self, f):
+        recv = ""
+        if f.recv:
+            ro, ent, ptr = f.recv
+            recv = "(%s %s%s) " % (ro.d(), "*" if ptr else "", ent.name)
+        ps = ", ".join("%s %s" % (p.d(), t.expr()) for p, t in f.params)
+        if len(f.results) == 0:
+            res = ""
+        elif len(f.results) == 1:
+            res = " " + f.results[0].expr()
+        else:
+            res = " (" + ", ".join(t.expr() for t in f.results) + ")"
+        name = f.obj.d()
+        text = ["func %s%s(%s)%s {" % (recv, name, ps, res)] + ["\t" + x for x in f.lines] + ["}"]
+        ident = f.obj.ident
+        if ident == "_":
+            fname = 4
+        elif ident == "init":
+            fname = 2
+        elif ident == "main":
+            fname = 3
+        else:
+            fname = 1 if ident[0].isupper() else 0
+        ap = ("F", {"obj": f.obj, "fname": fname, "isMethod": f.recv is not None, "items": f.items,
+                    "params": [(p, False) for p, _ in f.params]})
+        return text, ap
+
+    # ---------------------------------------------------------------- output
+    def files(self, nfiles=1, join_lines=True):
+        """{filename: text}; records the label of every object.  One-line declarations that
+        follow each other are sometimes joined with `;` (several objects per line)."""
+        tops = self.tops
+        names = ["f%d.go" % i for i in range(nfiles)]
+        out = {}
+        rj = self.r.fork("join")
+        for fi, fn in enumerate(names):
+            part = tops[fi::nfiles]
+            lines = ["package %s" % self.pkg, ""]
+            prev_single = False
+            for text, _ in part:
+                single = len(text) == 1 and text[0].startswith(("var ", "const ", "type "))
+                if join_lines and single and prev_single and rj.chance(1, 4):
+                    lines[-2] = lines[-2] + "; " + text[0]
+                    self.hit("frag_decls_joined_on_one_line")
+                    continue
+                lines += text + [""]
+                prev_single = single
+            final = []
+            for ln, line in enumerate(lines, start=1):
+                res = ""
+                i = 0
+                while i < len(line):
+                    ch = line[i]
+                    if ch == M1:
+                        j = line.index(M2, i)
+                        oid = int(line[i + 1:j])
+                        o = self.objs[oid - 1]
+                        o.label = "%s %s @%s:%d:%d" % (o.kind, o.display, fn, ln, len(res.encode()) + 1)
+                        i = j + 1
+                    else:
+                        res += ch
+                        i += 1
+                final.append(res)
+            out[fn] = "\n".join(final) + "\n"
+        return out
+
+    # ---------------------------------------------------------------- abstract package
+    def ap_tokens(self, facts):
+        """the `walk` line of the Lean driver; `facts` = TypeFacts of the harness (go/types)"""
+        by_label = {o.label: o for o in self.objs if o.label}
+        name_ids = {}
+
+        def nid(key):
+            if key not in name_ids:
+                name_ids[key] = len(name_ids) + 1
+            return name_ids[key]
+
+        fact_of = {}
+        for tf in facts:
+            o = by_label.get(tf["label"])
+            if o is None:
+                raise vlib.HarnessError("fragment generator: go/types knows a type the generator did not declare: %s" % tf["label"])
+            fact_of[o.id] = tf
+
+        def obj_of(label):
+            o = by_label.get(label)
+            if o is None:
+                raise vlib.HarnessError("fragment generator: unknown object %s in a method set" % label)
+            return o
+
+        def sels(lst):
+            out = []
+            for s in lst or []:
+                out.append((nid(s["name"]), s["exported"], [obj_of(x).id for x in s["path"]], obj_of(s["obj"]).id))
+            return out
+
+        def resolve(reads):
+            out = []
+            for x in reads:
+                if isinstance(x, Deferred):
+                    tf = fact_of[x.ent.obj.id]
+                    ms = tf["msp"] if x.ptr else tf["msv"]
+                    hit = [s for s in ms or [] if s["name"].split("|")[0] == x.mname]
+                    if len(hit) != 1:
+                        raise vlib.HarnessError("fragment generator: method %s not in the method set of %s" % (x.mname, tf["label"]))
+                    m = obj_of(hit[0]["obj"]).id
+                    out += [m] + [obj_of(p).id for p in hit[0]["path"]] + [m]
+                else:
+                    out.append(x.id)
+            return out
+
+        def objs(l):
+            l = resolve(l)
+            return [str(len(l))] + [str(x) for x in l]
+
+        def spec(sp):
+            t = [str(len(sp["names"]))]
+            for o, c in sp["names"]:
+                t += [str(o.id), str(c)]
+            t += objs(sp["typeReads"])
+            t.append(str(len(sp["values"])))
+            for v in sp["values"]:
+                t += objs(v)
+            return t
+
+        def sel_tokens(lst):
+            t = [str(len(lst))]
+            for n, ex, path, ob in lst:
+                t += [str(n), "1" if ex else "0", str(len(path))] + [str(x) for x in path] + [str(ob)]
+            return t
+
+        def typed(ap):
+            tf = fact_of.get(ap["obj"].id)
+            if tf is None:
+                raise vlib.HarnessError("fragment generator: no go/types facts for %s" % ap["obj"].label)
+            t = [str(ap["obj"].id), str(ap["cls"]), "1" if ap["alias"] else "0", "1" if tf["under_iface"] else "0"]
+            b = ap["body"]
+            if b[0] == "S":
+                t += ["S", str(len(b[1]))]
+                for f, c, tr in b[1]:
+                    t += [str(f.id), str(c)] + objs(tr)
+                t.append(str(len(b[2])))
+                for f, ex, to, he in b[2]:
+                    t += [str(f.id), "1" if ex else "0", str(to.id), "1" if he else "0"]
+            elif b[0] == "I":
+                t += ["I", str(len(b[1]))]
+                for m, (mn, sig), sr in b[1]:
+                    key = [x for x in tf["full"] if x.split("|")[0] == mn]
+                    if len(key) != 1:
+                        raise vlib.HarnessError("fragment generator: interface method %s not in go/types' method set of %s" % (mn, tf["label"]))
+                    t += [str(m.id), str(nid(key[0]))] + objs(sr)
+                t += objs(b[2])
+                t += [str(len(tf["full"]))] + [str(nid(x)) for x in tf["full"]]
+            else:
+                t += ["O"] + objs(b[1])
+            t += sel_tokens(sels(tf["msv"])) + sel_tokens(sels(tf["msp"]))
+            return t
+
+        def gen(g):
+            if g[0] == "T":
+                t = ["T", str(len(g[1]))]
+                for ap in g[1]:
+                    t += typed(ap)
+                return t
+            if g[0] == "V":
+                t = ["V", str(len(g[1]))]
+                for sp in g[1]:
+                    t += spec(sp)
+                return t
+            t = ["C", str(len(g[1]))]
+            for sp in g[1]:
+                t += spec(sp)
+            t.append(str(len(g[2])))
+            for grp in g[2]:
+                t += objs(grp)
+            return t
+
+        def item(it):
+            if it[0] == "s":
+                return ["s", str(it[1].id), "1" if it[2] else "0"]
+            if it[0] == "r":
+                return ["r"] + objs(it[1])
+            if it[0] == "p":
+                return ["p", str(it[1].id)] + objs(it[2])
+            return ["g"] + gen(it[1])
+
+        toks = ["walk", "1" if self.pkg == "main" else "0", "0", str(len(self.tops))]
+        for _, top in self.tops:
+            if top[0] == "F":
+                f = top[1]
+                toks += ["F", str(f["obj"].id), str(f["fname"]), "1" if f["isMethod"] else "0", str(len(f["items"]))]
+                for it in f["items"]:
+                    toks += item(it)
+                toks.append(str(len(f["params"])))
+                for p, un in f["params"]:
+                    toks += [str(p.id), "1" if un else "0"]
+            else:
+                toks += ["G"] + gen(top[1])
+        return " ".join(toks)
+
+
+def compare(gen, o, model_line):
+    """diffs between the Lean walk model and the real analyzer on one fragment package"""
+    diffs = []
+    by_label = {x.label: x for x in gen.objs if x.label}
+    if not model_line.startswith("ok=1 "):
+        return ["model: " + model_line[:200]]
+    parts = dict(p.split("=", 1) for p in model_line.split(" "))
+    names = o["node_names"]
+    node_obj = [0] * len(names)
+    for i, lab in enumerate(names):
+        if i == 0:
+            continue
+        x = by_label.get(lab)
+        if x is None:
+            diffs.append("real node unknown to the abstract package: " + lab)
+            node_obj[i] = -i
+        else:
+            node_obj[i] = x.id
+    lab_of = {x.id: x.label for x in gen.objs}
+    lab_of[0] = "ROOT"
+
+    def edges(s):
+        out = set()
+        if s and s != "-":
+            for e in s.split(","):
+                a, b = e.split(">")
+                out.add((node_obj[int(a)], node_obj[int(b)]))
+        return out
+
+    def medges(s):
+        out = set()
+        if s != "-":
+            for e in s.split(";"):
+                a, b = e.split(">")
+                out.add((int(a), int(b)))
+        return out
+
+    def show(e):
+        return "%s -> %s" % (lab_of.get(e[0], e[0]), lab_of.get(e[1], e[1]))
+
+    for tag, real, model in (("use", edges(o.get("uses")), medges(parts["U"])), ("own", edges(o.get("owns")), medges(parts["O"]))):
+        for e in sorted(real - model)[:6]:
+            diffs.append("%s edge only in the REAL graph: %s" % (tag, show(e)))
+        for e in sorted(model - real)[:6]:
+            diffs.append("%s edge only in the MODEL: %s" % (tag, show(e)))
+    mv = {}
+    if parts["V"] != "-":
+        for kv in parts["V"].split(","):
+            k, v = kv.split(":")
+            mv[int(k)] = v
+    rv = {node_obj[i]: o["colors"][i - 1] for i in range(1, len(names))}
+    for k in sorted(set(mv) | set(rv)):
+        if mv.get(k) != rv.get(k):
+            diffs.append("verdict of %s: model %s real %s" % (lab_of.get(k, k), mv.get(k), rv.get(k)))
+    # the program's references (go/types) must be references of the abstract package
+    mrefs = medges(parts["R"])
+    if o.get("refs") and o["refs"] != "-":
+        for i, rf in enumerate(o["refs"].split(";")):
+            ch, y = rf.split(">")
+            d = node_obj[int(ch.split(".")[0])] if ch else 0
+            if (d, node_obj[int(y)]) not in mrefs:
+                diffs.append("reference of the program missing in refsOf: %s (%s)" % (show((d, node_obj[int(y)])), o["ref_desc"][i]))
+    # zero-reference candidates: go/types' ⊆ the model's; the model's are Unused in the REAL result
+    mz = set(int(x) for x in parts["Z"].split(",")) if parts["Z"] != "-" else set()
+    mz_names = set(lab_of[k].split(" @")[0] for k in mz)
+    for nm in (o.get("zeroref") or {}).get("names") or []:
+        if nm not in mz_names:
+            diffs.append("zero-reference object (go/types) is not a candidate of the model: " + nm)
+    for k in mz:
+        if rv.get(k) != "X":
+            diffs.append("model candidate %s is not Unused in the real result (%s)" % (lab_of[k], rv.get(k)))
+    # hypotheses of walk_deletion_safe, evaluated by the driver on this package
+    if parts.get("H") != "11":
+        diffs.append("hypotheses of walk_deletion_safe fail on this package (rankOk, no Used object inside an Unused one): H=%s" % parts.get("H"))
+    return diffs
+
+
+
+# ============================================================================ running
 def write_pkg(d, files):
     os.makedirs(d, exist_ok=True)
     for n, t in files.items():
@@ -679,7 +1961,6 @@ def write_pkg(d, files):
     return [os.path.join(d, n) for n in files]
 
 
-# ============================================================================ running
 def run_jobs(ctx, binary, jobs, extra_env=None, nproc=None, timeout=1500):
     """Distribute job dicts over several c07run processes; returns {id: out}."""
     nproc = nproc or max(1, min(vlib.NCPU, 12, len(jobs)))
@@ -761,79 +2042,327 @@ def build_ok(expr):
         return False
 
 
-WANT_FULL = ["graph", "objs", "zeroref", "refs", "del"]
+WANT_FULL = ["graph", "objs", "zeroref", "refs", "del", "usedin"]
+WANT_FRAG = WANT_FULL + ["nodes", "facts"]
+U_KINDS = ["type param", "func", "field", "var", "const", "type", "identifier"]
 
 
-def classify(ctx, o, src_of=None):
-    """Evaluate the oracles on one c07run output. Returns list of (kind, detail)."""
+class Pk:
+    """one package of the population"""
+
+    def __init__(self, pid, src, pkgpath, plain, tests=(), texts=None, gen=None, binary=False, decls=None):
+        self.id, self.src, self.pkgpath = pid, src, pkgpath
+        self.plain, self.tests = list(plain), list(tests)
+        self.texts = texts          # {file name: text} for replays (None: read the files)
+        self.gen = gen              # FragGen of a fragment package
+        self.binary = binary        # goes through the real staticcheck binary
+        self.decls = decls          # (list of top-level declaration texts, test file text or None) for shrinking
+
+    def files_for_replay(self):
+        if self.texts is not None:
+            return self.texts
+        return {os.path.basename(f): open(f).read() for f in self.plain + self.tests}
+
+
+def split_tests(paths):
+    """(plain files, in-package test files); external test packages are left out"""
+    plain = [f for f in paths if not f.endswith("_test.go")]
+    tests = []
+    for f in paths:
+        if f.endswith("_test.go"):
+            m = re.search(r"^package (\w+)", open(f).read(), re.M)
+            if m and not m.group(1).endswith("_test"):
+                tests.append(f)
+    return plain, tests
+
+
+def run_staticcheck(ctx, sc, root, dirs, tests, cache):
+    """the REAL binary, U1000 only, on the given package directories of the module.
+    Returns {package dir: [[kind, name, file, line, col], …]}."""
+    out = {d: [] for d in dirs}
+    if not dirs:
+        return out
+    env = vlib.go_env({"STATICCHECK_CACHE": cache})
+    cmd = [sc, "-checks", "U1000", "-f", "json"] + ([] if tests else ["-tests=false"]) + ["./" + os.path.relpath(d, root) for d in dirs]
+    rc, so, se = vlib.run(cmd, cwd=root, env=env, timeout=2400)
+    if rc not in (0, 1):
+        raise vlib.HarnessError("staticcheck exited %d: %s" % (rc, (so + se)[-1500:]))
+    for line in so.splitlines():
+        j = json.loads(line)
+        if j.get("code") != "U1000":
+            raise vlib.HarnessError("unexpected diagnostic of the staticcheck binary on the generated module: %s" % line[:400])
+        msg = j["message"]
+        if not msg.endswith(" is unused"):
+            raise vlib.HarnessError("unexpected U1000 message %r" % msg)
+        head = msg[:-len(" is unused")]
+        kind = next((k for k in U_KINDS if head.startswith(k + " ")), None)
+        if kind is None:
+            raise vlib.HarnessError("unexpected U1000 message %r" % msg)
+        f = j["location"]["file"]
+        rec = [kind, head[len(kind) + 1:], f, str(j["location"]["line"]), str(j["location"]["column"])]
+        d = os.path.dirname(f)
+        if d not in out:
+            raise vlib.HarnessError("U1000 line for a file outside the analysed packages: %s" % f)
+        if rec not in out[d]:
+            out[d].append(rec)
+    return out
+
+
+def binary_phase(ctx, sc, root, pks, cache):
+    """run the binary without tests on all given packages and with tests on those that have
+    in-package test files; returns ({id: report}, {id: report with tests})"""
+    dirs = [os.path.dirname(p.plain[0]) for p in pks]
+    tdirs = [os.path.dirname(p.plain[0]) for p in pks if p.tests]
+    with ThreadPoolExecutor(max_workers=2) as ex:
+        fa = ex.submit(run_staticcheck, ctx, sc, root, dirs, False, cache)
+        fb = ex.submit(run_staticcheck, ctx, sc, root, tdirs, True, cache)
+        ra, rb = fa.result(), fb.result()
+    a = {p.id: ra[os.path.dirname(p.plain[0])] for p in pks}
+    b = {p.id: rb[os.path.dirname(p.plain[0])] for p in pks if p.tests}
+    return a, b
+
+
+def masked_by_same_name(o, missing):
+    """known finding unusedkey-no-column: the entries of a binary zero-reference failure
+    ("kind name @base:line") that a Used object with the same name on the same line explains"""
+    used = set()
+    for kind, name, pos, v in o.get("objs") or []:
+        if v == "U":
+            base, line, _ = pos.rsplit(":", 2)
+            used.add((name, base, line))
+    out = []
+    for m in missing:
+        head, pos = m.rsplit(" @", 1)
+        name = head.split(" ", 1)[1]
+        base, line = pos.rsplit(":", 1)
+        if (name, base, line) in used:
+            out.append(m)
+    return out
+
+
+def classify(o, known=None):
+    """Evaluate the oracles on one c07run output. Returns list of (kind, detail).  Entries
+    explained by the known finding unusedkey-no-column go to `known` instead."""
     bad = []
-    d = o.get("del")
-    if d is not None:
-        if d.get("unmapped"):
-            bad.append(("unmapped", d["unmapped"]))
-        if not d["ok"]:
-            bad.append(("deletion", {"errors": d.get("errors"), "reduced_package": d.get("src")}))
-    z = o.get("zeroref")
-    if z is not None and z.get("missing"):
-        bad.append(("zeroref", z["missing"]))
+    for key, tag in (("del", ""), ("bdel", "binary-")):
+        d = o.get(key)
+        if d is not None:
+            if d.get("unmapped"):
+                bad.append((tag + "unmapped", d["unmapped"]))
+            if not d["ok"]:
+                bad.append((tag + "deletion", {"errors": d.get("errors"), "reduced_package": d.get("src")}))
+    for key, tag in (("zeroref", ""), ("bzero", "binary-")):
+        z = o.get(key)
+        if z is not None and z.get("missing"):
+            missing = list(z["missing"])
+            if key == "bzero" and known is not None:
+                expl = masked_by_same_name(o, missing)
+                if expl:
+                    known.append((o["id"], expl))
+                    missing = [m for m in missing if m not in expl]
+            if missing:
+                bad.append((tag + "zeroref", missing))
     return bad
 
 
-def run(ctx):
-    lean_ok, lean_broke = vlib.std_lean_phase(ctx, MODULES, THEOREMS)
-    binary = vlib.build_harness(ctx, "c07run")
-    rng = vlib.SplitMix(ctx.seed).fork("c07")
-    quick = ctx.quick
-    n_gen = 220 if quick else 3000
+def hexs(s):
+    return "-" if s == "" else s.encode().hex()
 
+
+def emit_line(pkgpath, variants):
+    """`emit` line of the Lean driver from per-variant `objs` lists of c07run"""
+    toks = ["emit", str(len(variants))]
+    for objs in variants:
+        used = [x for x in objs if x[3] == "U"]
+        unused_ = [x for x in objs if x[3] == "X"]
+        toks += [hexs(pkgpath), "1"]
+        for lst in (used, unused_):
+            toks.append(str(len(lst)))
+            for kind, name, pos, _ in lst:
+                base, line, col = pos.rsplit(":", 2)
+                toks += [hexs(kind), hexs(name), hexs(base), line, col]
+    return " ".join(toks)
+
+
+def parse_emit(s):
+    """(keyinj, set of (kind, name, base, line, col))"""
+    parts = s.split(" ")
+    if not parts[0].startswith("keyinj="):
+        return None, None
+    out = set()
+    for t in parts[1:]:
+        if t == "-":
+            continue
+        k, n, b, l, c = t.split(":")
+        dec = lambda h: "" if h == "-" else bytes.fromhex(h).decode()
+        out.add((dec(k), dec(n), dec(b), l, c))
+    return parts[0] == "keyinj=1", out
+
+
+def make_jobs(pks, bin_a, bin_b):
     jobs = []
-    srcs = {}      # id -> {file: text}   (for replays)
-    meta = {}      # id -> generator histogram
-    # --- replay
+    for p in pks:
+        j = {"id": p.id, "files": sorted(p.plain), "pkgpath": p.pkgpath, "want": WANT_FRAG if p.gen is not None else WANT_FULL}
+        if p.id in bin_a:
+            j["binset"], j["binrep"] = True, bin_a[p.id]
+        jobs.append(j)
+        if p.tests:
+            j = {"id": p.id + "[tests]", "files": sorted(p.plain) + sorted(p.tests), "pkgpath": p.pkgpath, "want": WANT_FULL}
+            if p.id in bin_b:
+                j["binset"], j["binrep"] = True, bin_b[p.id]
+            jobs.append(j)
+    return jobs
+
+
+def shrink(ctx, binary, sc, root, cache, p, kinds, rounds=40):
+    """Greedy reduction of a failing generated package: drop top-level declarations while the
+    package still type-checks and an oracle of the same kind still fails."""
+    decls, test_text = p.decls
+    pkgname = re.search(r"^package (\w+)", list(p.files_for_replay().values())[0], re.M).group(1)
+    need_binary = any(k.startswith("binary-") for k in kinds)
+    tests_mode = p.id.endswith("[tests]") or (test_text is not None and any("tests" in k for k in kinds))
+    cur = list(decls)
+    trial = [0]
+
+    def fails(ds):
+        trial[0] += 1
+        d = os.path.join(root, "shrink", re.sub(r"\W", "_", p.id), "s%d" % trial[0])
+        os.makedirs(d)
+        files = {"f0.go": file_text(pkgname, ds)}
+        if test_text is not None:
+            files["f0_test.go"] = test_text
+        paths = write_pkg(d, files)
+        plain, tests = split_tests(paths)
+        q = Pk("shrink/%d" % trial[0], "shrink", MODPATH + "/shrink/%s/s%d" % (re.sub(r"\W", "_", p.id), trial[0]), plain, tests, texts=files)
+        ba, bb = ({}, {})
+        if need_binary:
+            try:
+                ba, bb = binary_phase(ctx, sc, root, [q], cache)
+            except vlib.HarnessError:
+                return None
+        outs = run_jobs(ctx, binary, make_jobs([q], ba, bb), None, 1)
+        for o in outs.values():
+            if o.get("type_errs") or o.get("err"):
+                return None
+        got = set()
+        for o in outs.values():
+            got |= set(k for k, _ in classify(o))
+        return files if (got & set(kinds)) else None
+
+    best = None
+    i = len(cur) - 1
+    while i >= 0 and trial[0] < rounds:
+        cand = cur[:i] + cur[i + 1:]
+        res = fails(cand)
+        if res is not None:
+            cur, best = cand, res
+        i -= 1
+    return best
+
+
+def run(ctx):
+    import time
+    t_phase = [time.time()]
+    phases = {}
+
+    def mark(name):
+        now = time.time()
+        phases[name] = round(now - t_phase[0], 1)
+        t_phase[0] = now
+
+    quick = ctx.quick
+    n_gen = 200 if quick else 3000
+    n_frag = 110 if quick else 1500
+    n_bin_gen = 40 if quick else 600       # generated packages that also go through the staticcheck binary
+    n_bin_frag = 24 if quick else 400
+    with ThreadPoolExecutor(max_workers=3) as ex:
+        fl = ex.submit(vlib.std_lean_phase, ctx, MODULES, THEOREMS)
+        fh = ex.submit(vlib.build_harness, ctx, "c07run")
+        fs = ex.submit(vlib.build_repo_cmd, ctx, "./cmd/staticcheck")
+        lean_ok, lean_broke = fl.result()
+        binary = fh.result()
+        sc = fs.result()
+    mark("build_lean_harness_staticcheck")
+    rng = vlib.SplitMix(ctx.seed).fork("c07")
+    root = ctx.path("mod", "go.mod")[:-len("/go.mod")]
+    with open(os.path.join(root, "go.mod"), "w") as f:
+        f.write("module %s\n\ngo 1.24\n" % MODPATH)
+    cache = ctx.path("sccache", "x")[:-2]
+
+    pks = []
+    heavy_jobs = []
+    hist = {}
     if ctx.replay:
         rp = json.load(open(ctx.replay))
-        for case in rp.get("cases", [rp]):
+        for k, case in enumerate(rp.get("cases", [rp])):
             if "files" not in case:
                 continue
-            d = ctx.path("replay", case["id"].replace("/", "_"), "x")
-            files = write_pkg(os.path.dirname(d), case["files"])
-            jobs.append({"id": case["id"], "files": sorted(files), "pkgpath": case.get("pkgpath", "example.com/replay"), "want": WANT_FULL})
-            srcs[case["id"]] = case["files"]
+            d = os.path.join(root, "replay", "r%d" % k)
+            paths = write_pkg(d, case["files"])
+            plain, tests = split_tests(paths)
+            pks.append(Pk(case["id"].replace("[tests]", ""), "replay", MODPATH + "/replay/r%d" % k, plain, tests, texts=case["files"], binary=True))
     else:
-        # --- corpus
+        # --- corpus (first)
         if os.path.isdir(CORPUS):
-            for d in sorted(os.listdir(CORPUS)):
-                p = os.path.join(CORPUS, d)
-                if os.path.isdir(p):
-                    fs = sorted(os.path.join(p, f) for f in os.listdir(p) if f.endswith(".go"))
-                    if fs:
-                        jobs.append({"id": "corpus/" + d, "files": fs, "pkgpath": "example.com/" + d, "want": WANT_FULL})
-        jobs += testdata_jobs(WANT_FULL, with_tests=True)
-        jobs += repo_jobs(REPO_PKGS_QUICK if quick else REPO_PKGS_THOROUGH, WANT_FULL)
-        # --- generated
-        hist = {}
+            for dn in sorted(os.listdir(CORPUS)):
+                src = os.path.join(CORPUS, dn)
+                if not os.path.isdir(src):
+                    continue
+                files = {f: open(os.path.join(src, f)).read() for f in sorted(os.listdir(src)) if f.endswith(".go")}
+                if not files:
+                    continue
+                paths = write_pkg(os.path.join(root, "corpus", dn), files)
+                plain, tests = split_tests(paths)
+                pks.append(Pk("corpus/" + dn, "corpus", MODPATH + "/corpus/" + dn, plain, tests, texts=files, binary=True))
+        heavy_jobs += testdata_jobs(WANT_FULL, with_tests=True)
+        heavy_jobs += repo_jobs(REPO_PKGS_QUICK if quick else REPO_PKGS_THOROUGH, WANT_FULL)
+        # --- generated declaration graphs
         for i in range(n_gen):
-            g = PkgGen(rng.fork("pkg%d" % i), size=2 + i % 9)
+            g = PkgGen(rng.fork("pkg%d" % i), size=2 + i % 9, pkg="p%d" % i)
+            test_text = None
+            if i % 5 == 0:
+                extra, test_text = g.test_file()
+                g.decls.append(extra)
             nfiles = 1 + (i % 3)
             files = g.files(nfiles)
-            pid = "gen/%d" % i
-            fl = write_pkg(ctx.path("gen", "p%d" % i, "x")[:-2], files)
-            jobs.append({"id": pid, "files": sorted(fl), "pkgpath": "example.com/gen/p%d" % i, "want": WANT_FULL})
-            srcs[pid] = files
+            decl_list = list(g.decls)
+            if test_text is not None:
+                files["f0_test.go"] = test_text
+            paths = write_pkg(os.path.join(root, "gen", "p%d" % i), files)
+            plain, tests = split_tests(paths)
+            pks.append(Pk("gen/%d" % i, "gen", MODPATH + "/gen/p%d" % i, plain, tests, texts=files, binary=(i < n_bin_gen),
+                          decls=(decl_list, test_text)))
+            for k, v in g.hist.items():
+                hist[k] = hist.get(k, 0) + v
+        # --- packages of the modelled fragment
+        frng = vlib.SplitMix(ctx.seed).fork("c07frag")
+        for i in range(n_frag):
+            g = FragGen(frng.fork("q%d" % i), size=2 + i % 8, pkg="q%d" % i)
+            files = g.files(1 + i % 2)
+            paths = write_pkg(os.path.join(root, "frag", "q%d" % i), files)
+            pks.append(Pk("frag/%d" % i, "frag", MODPATH + "/frag/q%d" % i, paths, [], texts=files, gen=g, binary=(i < n_bin_frag),
+                          decls=([strip_markers("\n".join(t)) for t, _ in g.tops], None)))
             for k, v in g.hist.items():
                 hist[k] = hist.get(k, 0) + v
         ctx.coverage["generator_histogram"] = dict(sorted(hist.items()))
 
+    mark("generate")
+    # ---- the real binary (needs nothing from the in-process runs) next to the heavy in-process jobs
     gopath_env = {"GOPATH": os.path.join(vlib.REPO, "unused", "testdata"), "GO111MODULE": "off"}
-    # generated packages import nothing: run them apart from the ones needing the source importer
-    light = [j for j in jobs if j["id"].startswith(("gen/", "corpus/", "replay"))]
-    heavy = [j for j in jobs if j not in light]
-    outs = {}
     with ThreadPoolExecutor(max_workers=2) as ex:
-        fa = ex.submit(run_jobs, ctx, binary, light, None, 8)
-        fb = ex.submit(run_jobs, ctx, binary, heavy, gopath_env, 8)
-        outs.update(fa.result())
-        outs.update(fb.result())
+        fb = ex.submit(binary_phase, ctx, sc, root, [p for p in pks if p.binary], cache)
+        fh = ex.submit(run_jobs, ctx, binary, heavy_jobs, gopath_env, 8)
+        bin_a, bin_b = fb.result()
+        outs = dict(fh.result())
+    mark("staticcheck_binary_and_heavy_inprocess")
+    light_jobs = make_jobs(pks, bin_a, bin_b)
+    outs.update(run_jobs(ctx, binary, light_jobs, None, 10))
+    mark("inprocess_light")
+    jobs = light_jobs + heavy_jobs
+    pk_of = {}
+    for p in pks:
+        pk_of[p.id] = p
+        pk_of[p.id + "[tests]"] = p
 
     # ---- generator sanity, harness errors
     gen_rejected = []
@@ -841,7 +2370,7 @@ def run(ctx):
     for j in jobs:
         o = outs[j["id"]]
         if o.get("type_errs"):
-            if j["id"].startswith("gen/"):
+            if j["id"].startswith(("gen/", "frag/", "corpus/")):
                 gen_rejected.append((j["id"], o["type_errs"][:2]))
             else:
                 ctx.notes.append("skipped %s: does not type-check in the harness loader: %s" % (j["id"], o["type_errs"][0]))
@@ -852,16 +2381,35 @@ def run(ctx):
             raise vlib.HarnessError("c07run failed on %s: %s" % (j["id"], o["err"]))
         loaded.append(j)
     if gen_rejected:
-        raise vlib.HarnessError("generator produced %d packages the type checker rejects, e.g. %s" % (len(gen_rejected), gen_rejected[:2]))
+        raise vlib.HarnessError("generator/corpus produced %d packages the type checker rejects, e.g. %s" % (len(gen_rejected), gen_rejected[:2]))
 
-    # ---- Lean: Results on the dumped graph, certificate, hypotheses
+    # ---- Lean: Results on the dumped graph, certificate; walk model; emission model
     lines = []
-    big = 0
+    plan = []     # (what, job id)
     for j in loaded:
         o = outs[j["id"]]
         lines.append("verdicts %d %s %s" % (o["n"], o.get("uses") or "-", o.get("owns") or "-"))
         lines.append("refs %d %s %s" % (o["n"], o.get("uses") or "-", o.get("refs") or "-"))
+        plan += [("verdicts", j["id"]), ("refs", j["id"])]
+    for p in pks:
+        if p.gen is not None and p.id in outs and not outs[p.id].get("type_errs"):
+            lines.append(p.gen.ap_tokens(outs[p.id].get("facts") or []))
+            plan.append(("walk", p.id))
+    for p in pks:
+        if not p.binary:
+            continue
+        lines.append(emit_line(p.pkgpath, [outs[p.id].get("objs") or []]))
+        plan.append(("emitA", p.id))
+        if p.tests:
+            lines.append(emit_line(p.pkgpath, [outs[p.id].get("objs") or [], outs[p.id + "[tests]"].get("objs") or []]))
+            plan.append(("emitB", p.id))
     model = vlib.run_model(ctx, "C07", lines)
+    mark("lean_driver")
+    mout = {}
+    for (what, jid), m in zip(plan, model):
+        if m == "bad-op":
+            raise vlib.HarnessError("model rejected the %s line of %s" % (what, jid))
+        mout[(what, jid)] = m
 
     corr_diffs = []
     uncovered = {}
@@ -871,17 +2419,17 @@ def run(ctx):
     nontrivial = set()
     violations = []
     samples = []
-    sizes = {"nodes": 0, "use_edges": 0, "own_edges": 0, "refs": 0, "reported": 0, "blanked_writes": 0, "removed_imports": 0,
-             "zero_ref_candidates": 0}
+    sizes = {"nodes": 0, "use_edges": 0, "own_edges": 0, "refs": 0, "refs_without_target_node": 0, "reported": 0, "blanked_writes": 0,
+             "removed_imports": 0, "zero_ref_candidates": 0, "binary_reported": 0, "binary_removed_imports": 0,
+             "binary_zero_ref_candidates": 0, "used_objects_inside_reported_ones": 0}
     by_source = {}
+    known_hits = []   # (job id, entries) explained by the known finding unusedkey-no-column
     for k, j in enumerate(loaded):
         o = outs[j["id"]]
-        mv, mr = model[2 * k], model[2 * k + 1]
+        mv, mr = mout[("verdicts", j["id"])], mout[("refs", j["id"])]
         programs += 1
         src = j["id"].split("/")[0]
         by_source[src] = by_source.get(src, 0) + 1
-        if mv == "bad-op" or mr == "bad-op":
-            raise vlib.HarnessError("model rejected the dump of %s" % j["id"])
         if o.get("dot_vs_result") != "ok":
             corr_diffs.append({"id": j["id"], "what": "Result lists are not the partition of nodes[1:] by the dumped colours", "detail": o.get("dot_vs_result")})
         if mv.startswith("wf=0"):
@@ -894,88 +2442,196 @@ def run(ctx):
                                    "model": mcol[:200], "impl": (o.get("colors") or "")[:200]})
             zk, zok = parts[-1][3:].split("/")
             zr_hyp += int(zk)
-            if zk != zok:
-                corr_diffs.append({"id": j["id"], "what": "zero_ref_unowned_reported hypotheses met but node not Unused in the model", "zr": parts[-1]})
         if mr.startswith("uncovered"):
+            # ENFORCED certificate: the hypothesis of deletion_safe_graph fails on this dump
             idx = [int(x) for x in mr.split()[1].split(",")]
             n_uncovered += len(idx)
             uncovered[j["id"]] = [o["ref_desc"][i] for i in idx[:6]]
+            corr_diffs.append({"id": j["id"], "what": "certificate refsCovered fails: a reference of the program is not covered by a use-path "
+                               "from an enclosing declaration (hypothesis of deletion_safe_graph)", "references": uncovered[j["id"]]})
+        # informational only: a Used object inside a reported one is legal (rule 5.1 lets the fields of two convertible
+        # structs use each other from a conversion inside unused code); the deletion oracle decides
+        sizes["used_objects_inside_reported_ones"] += len(o.get("used_inside_reported") or [])
         c = o["counts"]
         sizes["nodes"] += o["n"]
         sizes["use_edges"] += c["uses"]
         sizes["own_edges"] += c["owns"]
-        sizes["refs"] += (o.get("ref_stats") or {}).get("refs", 0)
+        rs = o.get("ref_stats") or {}
+        sizes["refs"] += rs.get("refs", 0)
+        sizes["refs_without_target_node"] += rs.get("no_target_node", 0)
         d = o.get("del") or {}
         sizes["reported"] += d.get("reported", 0)
         sizes["blanked_writes"] += d.get("blanked_writes", 0)
         sizes["removed_imports"] += d.get("removed_imports", 0)
         sizes["zero_ref_candidates"] += (o.get("zeroref") or {}).get("candidates", 0)
+        bd = o.get("bdel") or {}
+        sizes["binary_reported"] += bd.get("reported", 0)
+        sizes["binary_removed_imports"] += bd.get("removed_imports", 0)
+        sizes["binary_zero_ref_candidates"] += (o.get("bzero") or {}).get("candidates", 0)
         used_unexp = sum(1 for ob in o.get("objs", []) if ob[3] == "U" and ob[1][:1].islower())
         if c["unused"] >= 1 and used_unexp >= 1:
             nontrivial.add(j["id"])
-        bad = classify(ctx, o)
+        bad = classify(o, known_hits)
         if bad:
             violations.append((j, o, bad))
         if len(samples) < 6 and (k % max(1, len(loaded) // 6) == 0):
             samples.append({"id": j["id"], "nodes": o["n"], "counts": c, "reported": [ob[0] + " " + ob[1] for ob in o.get("objs", []) if ob[3] == "X"][:8],
-                            "deletion_ok": d.get("ok"), "zero_ref": o.get("zeroref"), "lean": mv[:80], "certificate": mr[:60]})
+                            "deletion_ok": d.get("ok"), "zero_ref": o.get("zeroref"), "binary_deletion_ok": bd.get("ok") if bd else None,
+                            "lean": mv[:80], "certificate": mr[:60]})
+
+    # ---- walk model vs the real analyzer (fragment packages)
+    walk_checked = walk_edges = walk_cands = 0
+    for p in pks:
+        if ("walk", p.id) not in mout:
+            continue
+        walk_checked += 1
+        m = mout[("walk", p.id)]
+        dd = compare(p.gen, outs[p.id], m)
+        if dd:
+            corr_diffs.append({"id": p.id, "what": "Lean walk model and the real AST walk of unused disagree", "diffs": dd[:10]})
+        if m.startswith("ok=1 "):
+            parts = dict(x.split("=", 1) for x in m.split(" "))
+            walk_edges += 0 if parts["U"] == "-" else parts["U"].count(";") + 1
+            walk_cands += 0 if parts["Z"] == "-" else parts["Z"].count(",") + 1
+    # ---- emission model vs the real binary
+    emit_checked = 0
+    keyinj_fail = 0
+    for p in pks:
+        for what, rep in (("emitA", bin_a.get(p.id)), ("emitB", bin_b.get(p.id))):
+            if (what, p.id) not in mout or rep is None:
+                continue
+            emit_checked += 1
+            inj, em = parse_emit(mout[(what, p.id)])
+            real = set((r[0], r[1], os.path.basename(r[2]), r[3], r[4]) for r in rep)
+            if not inj:
+                # two distinct objects share (package, file, line, name): exactly the known finding unusedkey-no-column
+                keyinj_fail += 1
+                known_hits.append((p.id, ["KeyInj (hypothesis of emit_complete) fails, " + what]))
+            if em != real:
+                corr_diffs.append({"id": p.id, "what": "U1000 lines of the staticcheck binary differ from the Lean merge/emission model "
+                                   "(lint.go: used[key] merge keyed by package, file, line, name)", "mode": "with tests" if what == "emitB" else "-tests=false",
+                                   "only_model": sorted(em - real)[:6], "only_binary": sorted(real - em)[:6]})
+
+    # ---- violation search when only a correspondence broke: the rest of the population through the binary
+    searched = 0
+    if corr_diffs and not violations and not ctx.replay:
+        rest = [p for p in pks if not p.binary and p.src in ("gen", "frag")][:150 if quick else 600]
+        if rest:
+            sa, sb = binary_phase(ctx, sc, root, rest, cache)
+            sjobs = make_jobs(rest, sa, sb)
+            for j in sjobs:
+                j["want"] = ["objs"]
+            souts = run_jobs(ctx, binary, sjobs, None, 10)
+            searched = len(rest)
+            for j in sjobs:
+                o = souts[j["id"]]
+                if o.get("type_errs") or o.get("err"):
+                    continue
+                bad = classify(o)
+                if bad:
+                    violations.append((j, o, bad))
 
     ctx.coverage.update({
         "programs": programs,
         "programs_by_source": by_source,
-        "evaluations": programs * 4,
-        "disagreements_checked": programs,
+        "evaluations": programs * 4 + walk_checked + emit_checked + 2 * sum(1 for j in loaded if outs[j["id"]].get("bdel") is not None),
+        "disagreements_checked": programs + walk_checked + emit_checked,
         "distinct_nontrivial": len(nontrivial),
-        "rule": "one program = one package run through the real unused.Analyzer; per program: Lean Results vs real colouring, "
-                "certificate refsCovered, deletion oracle (types.Check of the reduced package), zero-reference oracle; "
+        "rule": "one program = one package (variant) run through the real unused.Analyzer; per program: Lean Results vs real colouring, "
+                "enforced certificate refsCovered, deletion oracle (types.Check of the reduced package), zero-reference oracle; for the "
+                "packages that also go through the real staticcheck binary both oracles again on what the binary printed, and the Lean "
+                "emission model vs the binary; for fragment packages the Lean walk model vs the real graph; "
                 "non-trivial = package with >=1 reported object and >=1 used unexported object",
         "sizes": sizes,
         "zero_ref_hypothesis_nodes": zr_hyp,
-        "certificate": {"references_not_covered_by_a_use_path": n_uncovered, "examples": dict(list(uncovered.items())[:8])},
+        "certificate": {"references_not_covered_by_a_use_path": n_uncovered, "examples": dict(list(uncovered.items())[:8]), "enforced": True},
+        "walk_model": {"packages_compared": walk_checked, "use_edges_compared": walk_edges, "zero_ref_candidates_of_the_model": walk_cands},
+        "emission_model": {"binary_runs_compared": emit_checked, "packages_through_binary": sum(1 for p in pks if p.binary),
+                           "with_tests": len(bin_b), "keyinj_failures": keyinj_fail},
+        "violation_search_packages": searched,
+        "phase_wall_s": phases,
         "samples": samples,
     })
     ctx.assumptions += [
         "go/types (types.Check) is the judge of 'still type-checks'; go/parser, go/printer are trusted for the reduction",
-        "the AST walk of unused (entry/decl/stmt/read/write/namedType, implements.go, runtime.go) is NOT modelled: it is validated per program (translation validation), the quantifier over programs is sampled",
+        "the AST walk of unused is modelled in Lean for the fragment of Walk.lean only (checked edge-for-edge against the real graph on fragment packages); "
+        "outside the fragment (generics, struct conversions, unkeyed literals, anonymous structs, directives, cgo, linkname, generated files) it is validated "
+        "per program by the oracles; the quantifier over programs is sampled",
+        "method sets, complete interface method sets and 'embedded struct has an exported field' are inputs of the walk model (go/types facts)",
         "reading: removing a reported variable removes the pure stores into it (x = e becomes _ = e, x++ disappears) — rule 9.7 reports write-only variables by design",
         "Go's quieten closure has no visited bit; the model's has — identical whenever the Go code terminates (owns is a containment forest)",
-        "compiled Lean driver evaluates Results/refsCovered on dumps (kernel-checked theorems, compiled evaluation)",
+        "compiled Lean driver evaluates Results/refsCovered/walk/emitted (kernel-checked theorems, compiled evaluation)",
+        "external test packages (package p_test) are not part of the variants handed to the oracles; the binary runs with the default build configuration",
     ]
 
     # ---- report
     known = vlib.load_known_findings("C07")
+    for jid, entries in known_hits:
+        if "unusedkey-no-column" in known:
+            ctx.known_finding("key=unusedkey-no-column %s: %s" % (jid, "; ".join(entries)))
+        else:
+            violations.append(({"id": jid, "pkgpath": pk_of[jid].pkgpath if jid in pk_of else "", "files": []}, outs.get(jid, {}),
+                               [("binary-zeroref", entries)]))
+    shrunk = 0
     for (j, o, bad) in violations[:12]:
-        files = srcs.get(j["id"])
-        if files is None:
-            files = {os.path.basename(f): open(f).read() for f in j["files"]}
+        p = pk_of.get(j["id"])
+        files = p.files_for_replay() if p is not None else {os.path.basename(f): open(f).read() for f in j["files"]}
         kinds = "+".join(k for k, _ in bad)
         name = "c07_%s_%s.json" % (kinds, j["id"].replace("/", "_").replace("[", "_").replace("]", ""))
         text = "C07: %s on %s: %s" % (kinds, j["id"], json.dumps(bad[0][1])[:600])
+        small = None
+        if p is not None and p.decls is not None and shrunk < 2 and not ctx.replay:
+            try:
+                small = shrink(ctx, binary, sc, root, cache, p, [k for k, _ in bad])
+            except Exception as e:   # shrinking is a convenience: never lose the violation over it
+                ctx.notes.append("shrinking %s failed: %s" % (j["id"], e))
+            shrunk += 1
         ctx.violation(name, {
-            "id": j["id"], "pkgpath": j["pkgpath"], "files": files,
+            "id": j["id"], "pkgpath": j["pkgpath"], "files": small or files, "original_files": files if small else None,
             "failed": [{"oracle": k, "detail": dt} for k, dt in bad],
-            "reported_by_U1000": [ob for ob in o.get("objs", []) if ob[3] == "X"],
-            "how_to_replay": "./check C07 --replay <this file>  (writes `files` to a scratch dir, runs harness/cmd/c07run on it: real unused.Analyzer, "
-                             "then removes the reported objects and calls types.Check; or by hand: staticcheck -checks U1000 on the files, delete what it reports, go vet)",
+            "reported_by_unused_Analyzer": [ob for ob in o.get("objs", []) if ob[3] == "X"],
+            "reported_by_staticcheck_binary": j.get("binrep"),
+            "how_to_replay": "./check C07 --replay <this file>  (writes `files` into a scratch module, runs the real staticcheck binary "
+                             "(-checks U1000, without and with tests) and harness/cmd/c07run (real unused.Analyzer) on it, removes the reported "
+                             "objects and calls types.Check; by hand: staticcheck -checks U1000 ./..., delete what it reports, go vet)",
         }, text=text)
     if len(violations) > 12:
         ctx.notes.append("%d further failing programs not written as replays" % (len(violations) - 12))
     if not violations and (corr_diffs or not lean_ok):
         ctx.violation("correspondence.json", {
-            "what": "the Lean model of color/colorAndQuieten/Results no longer agrees with the real code on dumped graphs, or a proof no longer checks; "
-                    "both oracles hold on every explored program",
+            "what": "a Lean model (colouring / AST-walk rules / U1000 merge and emission) no longer agrees with the real code, a certificate fails, or a proof "
+                    "no longer checks; both oracles hold on every explored program (a violation search through the staticcheck binary over %d more "
+                    "packages found nothing)" % searched,
             "diffs": corr_diffs[:20], "lean": lean_broke,
-            "correspondence": "c07driver `verdicts` stream vs colours printed by (*SerializedGraph).Dot; theorems " + ", ".join(THEOREMS),
+            "correspondence": "c07driver streams verdicts/refs/walk/emit vs unused.Debug dumps and staticcheck output; theorems " + ", ".join(THEOREMS),
         }, nofail=True)
     elif corr_diffs:
-        ctx.notes.append("correspondence diffs: %s" % corr_diffs[:3])
+        ctx.notes.append("correspondence diffs (next to the violations): %s" % json.dumps(corr_diffs[:4])[:1500])
     return vlib.finish(ctx, "translation_validation")
+
+
+def strip_markers(s):
+    return re.sub(M1 + r"\d+" + M2, "", s)
 
 
 META = {
     "level": "translation_validation",
-    "technique": "Lean 4 theorems over the use/own graph model + per-program validation of the real unused analyzer's dumped graph (Lean Results, proved certificate check) + compile-level oracles judged by go/types",
-    "text": "For all graphs: Used is exactly root-reachability over uses, closed under uses; a checked certificate (every reference covered by a use-path from an enclosing declaration) implies no surviving reference dangles after deleting everything not Used; nodes without incoming use edge and without unseen owner are Unused; Quiet only below non-used owners. Per program (sampled: generated declaration graphs, unused/testdata, repository packages) the real analyzer's graph is dumped, the Lean Results are compared with the real Result, the certificate and hypotheses are evaluated, and the statement's two bracket facts are checked directly with the type checker.",
-    "note": "Trusted: Lean kernel; compiled c07driver; harness/cmd/c07run + internal/c07pkg (go/ast reduction, reference relation); go/types as oracle. The AST walk that builds the graph is validated per program, not proved.",
+    "technique": "Lean 4 theorems over (a) the use/own graph model, (b) a model of the rules of unused's AST walk for a declaration language "
+                 "(abstract package -> builder calls -> graph -> Results) and (c) a model of lintcmd's U1000 merge/emission; per-program validation of the real "
+                 "analyzer (dumped graph = Lean Results, enforced certificate, walk model = real graph edge for edge on fragment packages, emission model = "
+                 "lines of the real staticcheck binary) + compile-level oracles judged by go/types on the analyzer's Result and on the binary's output",
+    "text": "Proved for all graphs: Used = root-reachability, closed under uses; a checked certificate implies no surviving reference dangles; unreachable "
+            "unowned nodes are Unused; Quiet only below unused owners. Proved for every abstract package of the modelled fragment (package-level and "
+            "function-local types/vars/consts incl. multi-name specs and shared multi-value initialisers, structs with embedded fields, interfaces, methods, "
+            "method sets, implements): every identifier inside a Used declaration denotes a Used object; every name of `var a, b = f()` keeps the initialiser; "
+            "a Used named type (also a local one) that implements a known interface keeps the implementing methods and the embedded fields they are promoted "
+            "through; every unexported package-level func/type/var/stand-alone const that no identifier refers to is Unused. Proved for all result lists: "
+            "the binary emits an object iff a variant has it Unused and no variant has a Used object with the same (package, file, line, name) key; emitted "
+            "objects are Used in no variant; with injective keys every such object is emitted. Sampled: generated declaration graphs, fragment packages, "
+            "corpus regressions, unused/testdata, repository packages; both bracket facts of the statement are checked with the type checker on the "
+            "analyzer's Result and on the staticcheck binary's U1000 lines (without and with tests).",
+    "note": "Trusted: Lean kernel; compiled c07driver; harness/cmd/c07run + internal/c07pkg (go/ast reduction, reference relation, go/types facts); python "
+            "generators; go/types as oracle. Outside the walk model: generics, struct conversions, unkeyed/anonymous struct literals, directives, cgo, "
+            "linkname, generated files, non-default Options — validated per program by the oracles only.",
     "design_ref": "DESIGN.md section 5, C07",
 }
